@@ -8,30 +8,15 @@
    D. the result does not depend on how input, output and keyring are wired;
    E. the sender line names the first (unique) keyring entry with the sender's public key. *)
 From Kestrel Require Import Bytes BytesFacts Outcome IO IOFacts Prims.
+From Kestrel.gen Require Import Extracted.
 From Kestrel.Model Require Import AeadWrap Chunks Noise Files KeyringText KeyringSpec Cli CliStubs.
-From Kestrel.Proofs Require Import MonadFacts ChunksDec ChunksAuth KeyringRefine.
+From Kestrel.Proofs Require Import MonadFacts ChunksDec ChunksAuth KeyringRefine CliFs CliEnds.
 From Coq Require Import ZifyBool ZifyNat ZifyN.
 Local Open Scope N_scope.
 
 (* ====================================================================================== *)
 (** * 0. The file-system map, exit codes, the sink                                         *)
 (* ====================================================================================== *)
-
-Lemma fs_get_write_same : forall l p c, fs_get (fs_write l p c) p = Some c.
-Proof.
-  induction l as [|[q d] r IH]; intros p c; cbn [fs_write fs_get].
-  - now rewrite text_eqb_refl.
-  - destruct (text_eqb q p) eqn:E; cbn [fs_get]; rewrite E; [reflexivity | apply IH].
-Qed.
-
-Lemma fs_get_write_other : forall l p c q, q <> p -> fs_get (fs_write l p c) q = fs_get l q.
-Proof.
-  induction l as [|[q0 d] r IH]; intros p c q Hq; cbn [fs_write fs_get].
-  - rewrite text_eqb_neq by congruence. reflexivity.
-  - destruct (text_eqb q0 p) eqn:E; cbn [fs_get].
-    + apply text_eqb_eq in E. subst q0. rewrite text_eqb_neq by congruence. reflexivity.
-    + destruct (text_eqb q0 q); [reflexivity | now apply IH].
-Qed.
 
 Lemma code_of_zero st : code_of st = 0 <-> is_success st = true.
 Proof. unfold code_of. destruct st; cbn; split; intros H; try reflexivity; try discriminate. Qed.
@@ -69,6 +54,35 @@ Qed.
 
 Lemma io0_untouched input : sink_touched (io0 input) = false.
 Proof. reflexivity. Qed.
+Lemma job_io_untouched input dir bad : sink_touched (job_io input dir bad) = false.
+Proof. reflexivity. Qed.
+Lemma job_io_plain input : job_io input false false = io0 input.
+Proof. reflexivity. Qed.
+Lemma job_io_log input dir bad : log (job_io input dir bad) = [].
+Proof. reflexivity. Qed.
+
+(* what a run leaves in the file system, by the kind of sink *)
+Lemma out_fs_stdout l s : out_fs l None s = l.
+Proof. reflexivity. Qed.
+Lemma out_fs_bad l F s : fs_create_target l F = None -> out_fs l (Some F) s = l.
+Proof. intros H. unfold out_fs, open_sink. now rewrite H. Qed.
+Lemma out_fs_untouched l o s : sink_touched s = false -> out_fs l o s = l.
+Proof. intros H. unfold out_fs. rewrite H. now destruct (open_sink l o). Qed.
+Lemma out_fs_touched l F cp s : fs_create_target l F = Some cp -> sink_touched s = true ->
+  out_fs l (Some F) s = set_file l cp (w_out (wtr s)).
+Proof. intros H Ht. unfold out_fs, open_sink. now rewrite H, Ht. Qed.
+
+(* the file F (canonical path cp) received content c: what every path string and every node shows afterwards *)
+Lemma set_file_view l F cp c : fs_create_target l F = Some cp ->
+  fs_get (set_file l cp c) F = Some c /\
+  (forall q, fs_target l q <> fs_target l F -> fs_get (set_file l cp c) q = fs_get l q) /\
+  (forall cq, cq <> cp -> node_at (set_file l cp c) cq = node_at l cq).
+Proof.
+  intros H. destruct (fs_create_target_inv _ _ _ H) as (Ht & Hn & _).
+  split; [now apply fs_get_set_same|]. split.
+  - intros q Hq. apply fs_get_set_other; [assumption|]. now rewrite <- Ht.
+  - intros cq Hq. now apply node_at_set_other.
+Qed.
 
 (* ====================================================================================== *)
 (** * 1. The common shape of the streaming commands                                        *)
@@ -104,16 +118,26 @@ Qed.
 
 Lemma stream_untouched j : plan = inr j -> sink_touched (snd (run j)) = false -> new_fs r = fs w.
 Proof.
-  intros Hp Ht. destruct (stream_plan_run j Hp) as (_ & -> & _). unfold out_fs. rewrite Ht. now destruct outfile.
+  intros Hp Ht. destruct (stream_plan_run j Hp) as (_ & -> & _). now apply out_fs_untouched.
 Qed.
 
-Lemma stream_touched j F : plan = inr j -> outfile = Some F -> sink_touched (snd (run j)) = true ->
+(* the file named by -o cannot be created: nothing changes, whatever the run did *)
+Lemma stream_bad_sink j F : plan = inr j -> outfile = Some F -> fs_create_target (fs w) F = None ->
+  new_fs r = fs w /\ stdout r = [].
+Proof.
+  intros Hp Ho Hb. destruct (stream_plan_run j Hp) as (_ & -> & ->). rewrite Ho. split; [now apply out_fs_bad | reflexivity].
+Qed.
+
+Lemma stream_touched j F cp : plan = inr j -> outfile = Some F -> fs_create_target (fs w) F = Some cp ->
+  sink_touched (snd (run j)) = true ->
   fs_get (new_fs r) F = Some (w_out (wtr (snd (run j)))) /\
-  (forall q, q <> F -> fs_get (new_fs r) q = fs_get (fs w) q) /\
+  (forall q, fs_target (fs w) q <> fs_target (fs w) F -> fs_get (new_fs r) q = fs_get (fs w) q) /\
+  (forall cq, cq <> cp -> node_at (new_fs r) cq = node_at (fs w) cq) /\
   stdout r = [].
 Proof.
-  intros Hp Ho Ht. destruct (stream_plan_run j Hp) as (_ & -> & ->). rewrite Ho. unfold out_fs, out_stdout. rewrite Ht.
-  split; [apply fs_get_write_same|]. split; [|reflexivity]. intros q Hq. now apply fs_get_write_other.
+  intros Hp Ho Hc Ht. destruct (stream_plan_run j Hp) as (_ & -> & ->). rewrite Ho.
+  rewrite (out_fs_touched _ _ _ _ Hc Ht). destruct (set_file_view _ _ _ (w_out (wtr (snd (run j)))) Hc) as (H1 & H2 & H3).
+  repeat split; assumption.
 Qed.
 
 Lemma stream_stdout j : plan = inr j -> outfile = None ->
@@ -131,24 +155,39 @@ Proof.
   intros Hns. unfold stream_cmd. destruct plan as [st|j]; cbn; intros H; [|eauto].
   rewrite (Hns st eq_refl) in H. discriminate.
 Qed.
+
+(* whatever happens, only the node the -o path denotes can change, and it can only become a regular file:
+   no directory is created, nothing is removed, no other file is touched *)
+Lemma stream_only_target : 
+  new_fs r = fs w \/
+  exists F cp c, outfile = Some F /\ fs_create_target (fs w) F = Some cp /\ new_fs r = set_file (fs w) cp c.
+Proof.
+  unfold stream_cmd. destruct plan as [st|j]; [now left|]. cbn [stream_result mk_result new_fs].
+  unfold out_fs, open_sink. destruct outfile as [F|]; [|now left].
+  destruct (fs_create_target (fs w) F) as [cp|] eqn:Ec; [|now left].
+  destruct (sink_touched (snd (run j))); [|now left]. right. exists F, cp. eexists. repeat split. exact Ec.
+Qed.
 End Stream.
 
 (* -o F against stdout: same plan, same run *)
 Lemma stream_out_wiring {J E A} (w : world) (plan : pre J) (run : J -> outcome E A * io)
-    (fin : J -> outcome E A -> cmd_status) (F : text) :
+    (fin : J -> outcome E A -> cmd_status) (F : text) (cp : cpath) :
+  fs_create_target (fs w) F = Some cp ->
   let rf := stream_cmd w (Some F) plan run fin in
   let rs := stream_cmd w None plan run fin in
   status rf = status rs /\ exit_code rf = exit_code rs /\ stdout rf = [] /\ new_fs rs = fs w /\
-  (forall q, q <> F -> fs_get (new_fs rf) q = fs_get (fs w) q) /\
+  (forall q, fs_target (fs w) q <> fs_target (fs w) F -> fs_get (new_fs rf) q = fs_get (fs w) q) /\
   (forall j, plan = inr j -> sink_touched (snd (run j)) = true -> fs_get (new_fs rf) F = Some (stdout rs)) /\
   (forall j, plan = inr j -> sink_touched (snd (run j)) = false -> new_fs rf = fs w).
 Proof.
-  unfold stream_cmd. destruct plan as [st|j]; cbn.
+  intros Hc. unfold stream_cmd. destruct plan as [st|j]; cbn.
   - repeat split; try reflexivity; intros; discriminate.
   - repeat split; try reflexivity.
-    + intros q Hq. destruct (sink_touched (snd (run j))); [now apply fs_get_write_other | reflexivity].
-    + intros j' [= <-] Ht. rewrite Ht. apply fs_get_write_same.
-    + intros j' [= <-] Ht. now rewrite Ht.
+    + intros q Hq. destruct (sink_touched (snd (run j))) eqn:Ht.
+      * rewrite (out_fs_touched _ _ _ _ Hc Ht). now apply (set_file_view _ _ _ _ Hc).
+      * now rewrite out_fs_untouched.
+    + intros j' [= <-] Ht. rewrite (out_fs_touched _ _ _ _ Hc Ht). now apply (set_file_view _ _ _ _ Hc).
+    + intros j' [= <-] Ht. now rewrite out_fs_untouched.
 Qed.
 
 Lemma stream_success_touched {J E A} (w : world) (outfile : option text) (plan : pre J)
@@ -183,10 +222,15 @@ Lemma nosucc_of_outcome {E A} (f : E -> cmd_status) (o : outcome E A) :
 Proof. intros H. destruct o; cbn [of_outcome]; [apply nosucc_inr | apply nosucc_inl, H | now apply nosucc_inl | now apply nosucc_inl]. Qed.
 Lemma nosucc_check32 b : nosucc (check32 b).
 Proof. unfold check32. destruct (Nat.eqb _ _); [apply nosucc_inr | now apply nosucc_inl]. Qed.
+Lemma nosucc_open_input w i : nosucc (open_input w i).
+Proof.
+  unfold open_input. destruct i as [p|]; [|apply nosucc_inr].
+  destruct (resolve (fs w) p) as [[cp [[c|]|]]|]; first [apply nosucc_inr | now apply nosucc_inl].
+Qed.
 Lemma nosucc_open_io w i o : nosucc (open_io w i o).
 Proof.
-  unfold open_io, resolve_input. destruct (same_path i o); [now apply nosucc_inl|].
-  destruct i; [now apply nosucc_opt_or | apply nosucc_inr].
+  unfold open_io. destruct (same_path i o); [now apply nosucc_inl|].
+  apply nosucc_bind; [apply nosucc_open_input | intros x; apply nosucc_inr].
 Qed.
 Lemma nosucc_ask_pass w e : nosucc (ask_pass w e).
 Proof. unfold ask_pass, read_env_pass. destruct e; [now apply nosucc_opt_or | now apply nosucc_inl]. Qed.
@@ -203,9 +247,50 @@ Lemma opt_or_inr {A} st (o : option A) a : opt_or st o = inr a -> o = Some a.
 Proof. destruct o; cbn; [now intros [= ->] | discriminate]. Qed.
 Lemma of_outcome_inr {E A} (f : E -> cmd_status) (o : outcome E A) a : of_outcome f o = inr a -> o = Ok a.
 Proof. destruct o; cbn; try discriminate. now intros [= ->]. Qed.
-Lemma open_io_inr w i o b : open_io w i o = inr b -> same_path i o = false /\ resolve_input w i = inr b.
-Proof. unfold open_io. destruct (same_path i o); [discriminate | auto]. Qed.
+(* how the two ends of a streaming command's job come from the world and the two path arguments *)
+Definition job_ends (w : world) (infile outfile : option text) (input : bytes) (dir bad alias : bool) : Prop :=
+  exists cin, open_input w infile = inr (input, dir, cin) /\
+    bad = sink_bad (open_sink (fs w) outfile) /\ alias = same_file cin (open_sink (fs w) outfile).
 
+Lemma open_io_inr w i o b : open_io w i o = inr b ->
+  same_path i o = false /\ resolve_input w i = inr (ij_input b) /\
+  job_ends w i o (ij_input b) (ij_dir b) (ij_bad b) (ij_alias b).
+Proof.
+  unfold open_io, resolve_input. destruct (same_path i o); [discriminate|].
+  destruct (open_input w i) as [st|[[c d] cin]] eqn:Eo; cbn [pbind fst snd]; [discriminate|].
+  intros [= <-]. cbn [ij_input ij_dir ij_bad ij_alias]. split; [reflexivity|]. split; [reflexivity|]. exists cin.
+  split; [exact Eo|]. split; reflexivity.
+Qed.
+
+(* a job whose ends are plain: a regular file (or stdin) as input, a sink that can be created, no aliasing *)
+Lemma job_ends_bad_iff w i F input dir bad alias : job_ends w i (Some F) input dir bad alias ->
+  (bad = false <-> exists cp, fs_create_target (fs w) F = Some cp).
+Proof.
+  intros (cin & _ & -> & _). unfold open_sink. destruct (fs_create_target (fs w) F) as [cp|]; cbn [sink_bad].
+  - split; [eauto | reflexivity].
+  - split; [discriminate | intros [cp H]; discriminate].
+Qed.
+Lemma job_ends_stdout w i input dir bad alias : job_ends w i None input dir bad alias -> bad = false /\ alias = false.
+Proof. intros (cin & _ & -> & ->). split; [reflexivity | now destruct cin]. Qed.
+
+(* the input seen through its path: a regular file gives its bytes, a directory gives a handle whose reads fail *)
+Lemma open_input_file w p c : fs_get (fs w) p = Some c ->
+  exists cp, open_input w (Some p) = inr (c, false, Some cp) /\ fs_target (fs w) p = Some cp.
+Proof.
+  unfold fs_get, open_input, fs_target. destruct (resolve (fs w) p) as [[cp [[c0|]|]]|]; try discriminate.
+  intros [= ->]. exists cp. split; reflexivity.
+Qed.
+Lemma open_input_inv w i c d cin : open_input w i = inr (c, d, cin) ->
+  match i with
+  | None => c = stdin w /\ d = false /\ cin = None
+  | Some p => exists cp, cin = Some cp /\ fs_target (fs w) p = Some cp /\
+                (d = false /\ fs_get (fs w) p = Some c \/ d = true /\ c = [] /\ resolve (fs w) p = Some (cp, Some NDir))
+  end.
+Proof.
+  unfold open_input, fs_get, fs_target. destruct i as [p|].
+  - destruct (resolve (fs w) p) as [[cp [[c0|]|]]|]; try discriminate; intros [= <- <- <-]; exists cp; cbn; auto 6.
+  - intros [= <- <- <-]. auto.
+Qed.
 Lemma same_path_false i F : i <> Some F -> same_path i (Some F) = false.
 Proof. destruct i as [p|]; cbn; [|reflexivity]. intros H. apply text_eqb_neq. congruence. Qed.
 Lemma same_path_none i : same_path i None = false.
@@ -235,6 +320,10 @@ Notation run_enc := (run_enc P).
 Notation run_dec := (run_dec P).
 Notation run_penc := (run_penc P).
 Notation run_pdec := (run_pdec P).
+Notation dec_fed := (dec_fed P).
+Notation pdec_fed := (pdec_fed P).
+Notation enc_fed := (enc_fed P).
+Notation penc_fed := (penc_fed P).
 Notation fin_dec := (fin_dec encode_pk).
 Notation sender_status := (sender_status encode_pk).
 Notation cmd_encrypt := (cmd_encrypt P pk_ok sk_ok unlock decode_pk utf8_decode).
@@ -356,8 +445,14 @@ Theorem pass_decrypt_failed_leaves_fs w o :
   new_fs (cmd_pass_decrypt w o) = fs w /\ stdout (cmd_pass_decrypt w o) = [].
 Proof. intros H. apply stream_early in H; [tauto|]. intros j r. apply fin_pdec_not_early. Qed.
 
-Lemma gen_write_success w out k : is_success (status (gen_write w out k)) = true.
-Proof. unfold Cli.gen_write. destruct out as [f|]; [destruct (fs_get (fs w) f)|]; reflexivity. Qed.
+(* writing the key either succeeds, or fails while opening / creating the file and leaves everything as it was *)
+Lemma gen_write_cases w out k :
+  status (gen_write w out k) = SOk \/
+  (is_success (status (gen_write w out k)) = false /\ new_fs (gen_write w out k) = fs w /\ stdout (gen_write w out k) = []).
+Proof.
+  unfold Cli.gen_write. destruct out as [f|]; [|now left].
+  destruct (resolve (fs w) f) as [[cp [[c0|]|]]|]; first [now left | right; repeat split].
+Qed.
 
 (* key generate: ANY failure leaves the file system alone (there is no late failure) *)
 Theorem gen_key_failed_leaves_fs w o sk salt :
@@ -365,7 +460,7 @@ Theorem gen_key_failed_leaves_fs w o sk salt :
   new_fs (cmd_gen_key w o sk salt) = fs w /\ stdout (cmd_gen_key w o sk salt) = [].
 Proof.
   unfold Cli.cmd_gen_key. destruct (gen_plan w o sk salt) as [st|k]; [split; reflexivity|].
-  rewrite gen_write_success. discriminate.
+  destruct (gen_write_cases w (go_outfile o) k) as [->|(_ & H1 & H2)]; [discriminate | auto].
 Qed.
 
 (* the two commands that write nothing but stdout never change the file system *)
@@ -434,57 +529,65 @@ Proof. now destruct e. Qed.
 Lemma fin_pdec_err e : code_of (fin_pdec (Err e)) = 1.
 Proof. now destruct e. Qed.
 
-Theorem encrypt_late_failure_keeps_prefix w o fpk fe j F :
-  encrypt_plan w o = inr j -> eo_outfile o = Some F -> sink_touched (snd (run_enc fpk fe j)) = true ->
+Theorem encrypt_late_failure_keeps_prefix w o fpk fe j F cp :
+  encrypt_plan w o = inr j -> eo_outfile o = Some F -> fs_create_target (fs w) F = Some cp ->
+  sink_touched (snd (run_enc fpk fe j)) = true ->
   let r := cmd_encrypt w o fpk fe in
   fs_get (new_fs r) F = Some (w_out (wtr (snd (run_enc fpk fe j)))) /\
-  (forall q, q <> F -> fs_get (new_fs r) q = fs_get (fs w) q) /\
+  (forall q, fs_target (fs w) q <> fs_target (fs w) F -> fs_get (new_fs r) q = fs_get (fs w) q) /\
+  (forall cq, cq <> cp -> node_at (new_fs r) cq = node_at (fs w) cq) /\
   (forall e, fst (run_enc fpk fe j) = Err e -> exit_code r = 1 /\ status r = SEncryptFailed e).
 Proof.
-  intros Hp Ho Ht r. destruct (stream_touched w _ _ (run_enc fpk fe) (fun _ => fin_enc) j F Hp Ho Ht) as (H1 & H2 & _).
-  split; [exact H1|]. split; [exact H2|]. intros e He.
-  destruct (stream_err w (eo_outfile o) _ (run_enc fpk fe) (fun _ => fin_enc) j e Hp He) as [H3 H4].
-  split; [exact H3 | exact H4].
+  intros Hp Ho Hc Ht r. destruct (stream_touched w _ _ (run_enc fpk fe) (fun _ => fin_enc) j F cp Hp Ho Hc Ht) as (H1 & H2 & H3 & _).
+  split; [exact H1|]. split; [exact H2|]. split; [exact H3|]. intros e He.
+  destruct (stream_err w (eo_outfile o) _ (run_enc fpk fe) (fun _ => fin_enc) j e Hp He) as [H4 H5].
+  split; [exact H4 | exact H5].
 Qed.
 
-Theorem decrypt_late_failure_keeps_prefix w o j F :
-  decrypt_plan w o = inr j -> do_outfile o = Some F -> sink_touched (snd (run_dec j)) = true ->
+Theorem decrypt_late_failure_keeps_prefix w o j F cp :
+  decrypt_plan w o = inr j -> do_outfile o = Some F -> fs_create_target (fs w) F = Some cp ->
+  sink_touched (snd (run_dec j)) = true ->
   let r := cmd_decrypt w o in
   fs_get (new_fs r) F = Some (w_out (wtr (snd (run_dec j)))) /\
-  (forall q, q <> F -> fs_get (new_fs r) q = fs_get (fs w) q) /\
+  (forall q, fs_target (fs w) q <> fs_target (fs w) F -> fs_get (new_fs r) q = fs_get (fs w) q) /\
+  (forall cq, cq <> cp -> node_at (new_fs r) cq = node_at (fs w) cq) /\
   (forall e, fst (run_dec j) = Err e -> exit_code r = 1 /\ status r = fin_dec (dj_keys j) (Err e)).
 Proof.
-  intros Hp Ho Ht r.
-  destruct (stream_touched w _ _ run_dec (fun j => fin_dec (dj_keys j)) j F Hp Ho Ht) as (H1 & H2 & _).
-  split; [exact H1|]. split; [exact H2|]. intros e He.
-  destruct (stream_err w (do_outfile o) _ run_dec (fun j => fin_dec (dj_keys j)) j e Hp He) as [H3 H4].
-  rewrite fin_dec_err in H3. split; [exact H3 | exact H4].
+  intros Hp Ho Hc Ht r.
+  destruct (stream_touched w _ _ run_dec (fun j => fin_dec (dj_keys j)) j F cp Hp Ho Hc Ht) as (H1 & H2 & H3 & _).
+  split; [exact H1|]. split; [exact H2|]. split; [exact H3|]. intros e He.
+  destruct (stream_err w (do_outfile o) _ run_dec (fun j => fin_dec (dj_keys j)) j e Hp He) as [H4 H5].
+  rewrite fin_dec_err in H4. split; [exact H4 | exact H5].
 Qed.
 
-Theorem pass_encrypt_late_failure_keeps_prefix w o salt j F :
-  pass_encrypt_plan w o salt = inr j -> po_outfile o = Some F -> sink_touched (snd (run_penc salt j)) = true ->
+Theorem pass_encrypt_late_failure_keeps_prefix w o salt j F cp :
+  pass_encrypt_plan w o salt = inr j -> po_outfile o = Some F -> fs_create_target (fs w) F = Some cp ->
+  sink_touched (snd (run_penc salt j)) = true ->
   let r := cmd_pass_encrypt w o salt in
   fs_get (new_fs r) F = Some (w_out (wtr (snd (run_penc salt j)))) /\
-  (forall q, q <> F -> fs_get (new_fs r) q = fs_get (fs w) q) /\
+  (forall q, fs_target (fs w) q <> fs_target (fs w) F -> fs_get (new_fs r) q = fs_get (fs w) q) /\
+  (forall cq, cq <> cp -> node_at (new_fs r) cq = node_at (fs w) cq) /\
   (forall e, fst (run_penc salt j) = Err e -> exit_code r = 1 /\ status r = SEncryptFailed e).
 Proof.
-  intros Hp Ho Ht r. destruct (stream_touched w _ _ (run_penc salt) (fun _ => fin_enc) j F Hp Ho Ht) as (H1 & H2 & _).
-  split; [exact H1|]. split; [exact H2|]. intros e He.
-  destruct (stream_err w (po_outfile o) _ (run_penc salt) (fun _ => fin_enc) j e Hp He) as [H3 H4].
-  split; [exact H3 | exact H4].
+  intros Hp Ho Hc Ht r. destruct (stream_touched w _ _ (run_penc salt) (fun _ => fin_enc) j F cp Hp Ho Hc Ht) as (H1 & H2 & H3 & _).
+  split; [exact H1|]. split; [exact H2|]. split; [exact H3|]. intros e He.
+  destruct (stream_err w (po_outfile o) _ (run_penc salt) (fun _ => fin_enc) j e Hp He) as [H4 H5].
+  split; [exact H4 | exact H5].
 Qed.
 
-Theorem pass_decrypt_late_failure_keeps_prefix w o j F :
-  pass_decrypt_plan w o = inr j -> po_outfile o = Some F -> sink_touched (snd (run_pdec j)) = true ->
+Theorem pass_decrypt_late_failure_keeps_prefix w o j F cp :
+  pass_decrypt_plan w o = inr j -> po_outfile o = Some F -> fs_create_target (fs w) F = Some cp ->
+  sink_touched (snd (run_pdec j)) = true ->
   let r := cmd_pass_decrypt w o in
   fs_get (new_fs r) F = Some (w_out (wtr (snd (run_pdec j)))) /\
-  (forall q, q <> F -> fs_get (new_fs r) q = fs_get (fs w) q) /\
+  (forall q, fs_target (fs w) q <> fs_target (fs w) F -> fs_get (new_fs r) q = fs_get (fs w) q) /\
+  (forall cq, cq <> cp -> node_at (new_fs r) cq = node_at (fs w) cq) /\
   (forall e, fst (run_pdec j) = Err e -> exit_code r = 1 /\ status r = fin_pdec (Err e)).
 Proof.
-  intros Hp Ho Ht r. destruct (stream_touched w _ _ run_pdec (fun _ => fin_pdec) j F Hp Ho Ht) as (H1 & H2 & _).
-  split; [exact H1|]. split; [exact H2|]. intros e He.
-  destruct (stream_err w (po_outfile o) _ run_pdec (fun _ => fin_pdec) j e Hp He) as [H3 H4].
-  rewrite fin_pdec_err in H3. split; [exact H3 | exact H4].
+  intros Hp Ho Hc Ht r. destruct (stream_touched w _ _ run_pdec (fun _ => fin_pdec) j F cp Hp Ho Hc Ht) as (H1 & H2 & H3 & _).
+  split; [exact H1|]. split; [exact H2|]. split; [exact H3|]. intros e He.
+  destruct (stream_err w (po_outfile o) _ run_pdec (fun _ => fin_pdec) j e Hp He) as [H4 H5].
+  rewrite fin_pdec_err in H4. split; [exact H4 | exact H5].
 Qed.
 
 (* ====================================================================================== *)
@@ -492,7 +595,8 @@ Qed.
 (* ====================================================================================== *)
 
 (** One successful `key generate -o F`: an existing F keeps its content and gets
-    "\n" ++ key text at the end; a missing F is created with the key text; no other path changes. *)
+    "\n" ++ key text at the end; a missing F is created with the key text; no other file changes, whatever
+    string names it; no node other than F's changes; no path string changes its meaning. *)
 Theorem gen_preserves_prefix w o sk salt F :
   go_outfile o = Some F -> is_success (status (cmd_gen_key w o sk salt)) = true ->
   exists key_text, gen_plan w o sk salt = inr key_text /\
@@ -501,15 +605,34 @@ Theorem gen_preserves_prefix w o sk salt F :
             | Some c0 => c0 ++ key_bytes_nl key_text
             | None => key_bytes key_text
             end) /\
-    (forall q, q <> F -> fs_get (new_fs (cmd_gen_key w o sk salt)) q = fs_get (fs w) q) /\
-    stdout (cmd_gen_key w o sk salt) = [] /\ status (cmd_gen_key w o sk salt) = SOk.
+    (forall q, fs_target (fs w) q <> fs_target (fs w) F ->
+               fs_get (new_fs (cmd_gen_key w o sk salt)) q = fs_get (fs w) q) /\
+    stdout (cmd_gen_key w o sk salt) = [] /\ status (cmd_gen_key w o sk salt) = SOk /\
+    (forall q, fs_target (new_fs (cmd_gen_key w o sk salt)) q = fs_target (fs w) q) /\
+    exists cp, fs_create_target (fs w) F = Some cp /\
+      forall cq, cq <> cp -> node_at (new_fs (cmd_gen_key w o sk salt)) cq = node_at (fs w) cq.
 Proof.
   intros Ho Hs. unfold Cli.cmd_gen_key in *. destruct (gen_plan w o sk salt) as [st|k] eqn:Ep.
   - cbn in Hs. rewrite (nosucc_gen_plan _ _ _ _ _ Ep) in Hs. discriminate.
-  - exists k. split; [reflexivity|]. rewrite Ho. unfold Cli.gen_write.
-    destruct (fs_get (fs w) F) as [c0|] eqn:Eg; cbn [new_fs stdout status mk_result];
-      (split; [apply fs_get_write_same|]); (split; [|split; reflexivity]);
-      intros q Hq; now apply fs_get_write_other.
+  - exists k. split; [reflexivity|]. rewrite Ho in *. unfold Cli.gen_write in *.
+    assert (Hv : forall cp c, fs_create_target (fs w) F = Some cp ->
+      fs_get (set_file (fs w) cp c) F = Some c /\
+      (forall q, fs_target (fs w) q <> fs_target (fs w) F -> fs_get (set_file (fs w) cp c) q = fs_get (fs w) q) /\
+      (forall q, fs_target (set_file (fs w) cp c) q = fs_target (fs w) q) /\
+      forall cq, cq <> cp -> node_at (set_file (fs w) cp c) cq = node_at (fs w) cq).
+    { intros cp c Hc. destruct (set_file_view _ _ _ c Hc) as (V1 & V2 & V3).
+      destruct (fs_create_target_inv _ _ _ Hc) as (_ & Hn & _).
+      repeat split; try assumption. intros q. now apply fs_target_set_file. }
+    destruct (resolve (fs w) F) as [[cp [[c0|]|]]|] eqn:Er; cbn [new_fs stdout status mk_result fail_result] in *;
+      try discriminate.
+    + assert (Hc : fs_create_target (fs w) F = Some cp) by (unfold fs_create_target; now rewrite Er).
+      assert (Hg : fs_get (fs w) F = Some c0) by (unfold fs_get; now rewrite Er). rewrite Hg.
+      destruct (Hv cp (c0 ++ key_bytes_nl k) Hc) as (V1 & V2 & V3 & V4).
+      repeat split; try assumption. exists cp. split; assumption.
+    + assert (Hc : fs_create_target (fs w) F = Some cp) by (unfold fs_create_target; now rewrite Er).
+      assert (Hg : fs_get (fs w) F = None) by (unfold fs_get; now rewrite Er). rewrite Hg.
+      destruct (Hv cp (key_bytes k) Hc) as (V1 & V2 & V3 & V4).
+      repeat split; try assumption. exists cp. split; assumption.
 Qed.
 
 (* without -o: the key text on stdout, the file system untouched *)
@@ -551,7 +674,8 @@ Lemma gen_history_cons F l i rest l' ks : gen_history F l (i :: rest) = Some (l'
     is_success (status (gen_run F l i)) = true /\
     gen_history F (new_fs (gen_run F l i)) rest = Some (l', ks') /\
     fs_get (new_fs (gen_run F l i)) F = history_content (fs_get l F) [k] /\
-    (forall q, q <> F -> fs_get (new_fs (gen_run F l i)) q = fs_get l q).
+    (forall q, fs_target l q <> fs_target l F -> fs_get (new_fs (gen_run F l i)) q = fs_get l q) /\
+    (forall q, fs_target (new_fs (gen_run F l i)) q = fs_target l q).
 Proof.
   cbn [Cli.gen_history]. destruct (is_success (status (gen_run F l i))) eqn:Es; [|discriminate].
   destruct (gen_key_text l i) as [st|k] eqn:Ek; [discriminate|].
@@ -562,20 +686,24 @@ Proof.
     change (gen_key_text l i = inr k') in Ek'. rewrite Ek in Ek'. injection Ek' as <-.
     rewrite H. cbn [gen_world fs]. destruct (fs_get l F); cbn; now rewrite app_nil_r.
   - unfold Cli.gen_run in *. destruct (gen_preserves_prefix (gen_world l i) {| go_outfile := Some F; go_env_pass := gi_env_pass i |} (gi_sk i) (gi_salt i) F eq_refl Es) as (_ & _ & _ & H & _). exact H.
+  - unfold Cli.gen_run in *. destruct (gen_preserves_prefix (gen_world l i) {| go_outfile := Some F; go_env_pass := gi_env_pass i |} (gi_sk i) (gi_salt i) F eq_refl Es) as (_ & _ & _ & _ & _ & _ & H & _). exact H.
 Qed.
 
 (** The content of F after a successful history: the prior content (if any) followed by the key
     texts, each preceded by "\n" — except that a file created by the history starts with the first
     key text itself.  No other path changes. *)
 Theorem gen_history_content F : forall ins l l' ks, gen_history F l ins = Some (l', ks) ->
-  fs_get l' F = history_content (fs_get l F) ks /\ (forall q, q <> F -> fs_get l' q = fs_get l q).
+  fs_get l' F = history_content (fs_get l F) ks /\
+  (forall q, fs_target l q <> fs_target l F -> fs_get l' q = fs_get l q) /\
+  (forall q, fs_target l' q = fs_target l q).
 Proof.
   induction ins as [|i rest IH]; intros l l' ks H.
   - injection H as <- <-. now rewrite history_content_nil.
-  - apply gen_history_cons in H. destruct H as (k & ks' & _ & -> & _ & Hr & Hc & Ho).
-    destruct (IH _ _ _ Hr) as [H1 H2]. split.
+  - apply gen_history_cons in H. destruct H as (k & ks' & _ & -> & _ & Hr & Hc & Ho & Ht).
+    destruct (IH _ _ _ Hr) as (H1 & H2 & H3). split; [|split].
     + rewrite H1, Hc. apply (history_content_app (fs_get l F) [k] ks').
-    + intros q Hq. rewrite H2 by assumption. now apply Ho.
+    + intros q Hq. rewrite H2 by (now rewrite !Ht). now apply Ho.
+    + intros q. now rewrite H3, Ht.
 Qed.
 
 Lemma gen_history_app F : forall a b l l' ks, gen_history F l (a ++ b) = Some (l', ks) ->
@@ -646,8 +774,9 @@ Theorem gen_key_legacy_forgets w o sk salt F c0 :
 Proof.
   intros Ho Hg Hs. unfold Cli.gen_key_legacy in *. destruct (gen_plan w o sk salt) as [st|k] eqn:Ep.
   - cbn in Hs. rewrite (nosucc_gen_plan _ _ _ _ _ Ep) in Hs. discriminate.
-  - exists k. split; [reflexivity|]. rewrite Ho. unfold Cli.gen_write_legacy. rewrite Hg.
-    cbn [new_fs mk_result]. apply fs_get_write_same.
+  - exists k. split; [reflexivity|]. rewrite Ho. unfold Cli.gen_write_legacy.
+    destruct (fs_get_create_target _ _ _ Hg) as (cp & Hr & Hc & _). rewrite Hr.
+    cbn [new_fs mk_result]. now apply fs_create_target_written.
 Qed.
 
 (** ** the written file has the keyring_text shape, and reads back *)
@@ -871,7 +1000,8 @@ Qed.
 Lemma gen_wf w o sk salt : wf_result (cmd_gen_key w o sk salt).
 Proof.
   unfold Cli.cmd_gen_key. destruct (gen_plan w o sk salt) as [st|k]; [reflexivity|].
-  unfold Cli.gen_write. destruct (go_outfile o) as [f|]; [destruct (fs_get (fs w) f)|]; reflexivity.
+  unfold Cli.gen_write. destruct (go_outfile o) as [f|]; [|reflexivity].
+  destruct (resolve (fs w) f) as [[cp [[c0|]|]]|]; reflexivity.
 Qed.
 Lemma change_pass_wf w sk e salt : wf_result (cmd_change_pass w sk e salt).
 Proof. unfold Cli.cmd_change_pass. now destruct (pbind _ _). Qed.
@@ -926,17 +1056,18 @@ Lemma decrypt_plan_inv w o j : decrypt_plan w o = inr j ->
     decode_pk (k_pub rk) = Ok (dj_rpk j) /\
     k_priv rk = Some locked /\
     ask_pass w (do_env_pass o) = inr pw /\
-    unlock locked pw = Ok (dj_r j).
+    unlock locked pw = Ok (dj_r j) /\
+    job_ends w (do_infile o) (do_outfile o) (dj_input j) (dj_dir j) (dj_bad j) (dj_alias j).
 Proof.
   unfold Cli.decrypt_plan. intros H.
-  apply pbind_inr in H. destruct H as (input & Hi & H). apply open_io_inr in Hi. destruct Hi as [Hs Hi].
+  apply pbind_inr in H. destruct H as (input & Hi & H). apply open_io_inr in Hi. destruct Hi as (Hs & Hi & He).
   apply pbind_inr in H. destruct H as (keys & Hk & H).
   apply pbind_inr in H. destruct H as (rk & Hrk & H). apply opt_or_inr in Hrk.
   apply pbind_inr in H. destruct H as (rpub & Hrpub & H). apply of_outcome_inr in Hrpub.
   apply pbind_inr in H. destruct H as (locked & Hl & H). apply opt_or_inr in Hl.
   apply pbind_inr in H. destruct H as (pw & Hpw & H).
   apply pbind_inr in H. destruct H as (rpriv & Hu & H). apply of_outcome_inr in Hu.
-  injection H as <-. exists rk, locked, pw. cbn [dj_input dj_keys dj_rpk dj_r]. auto 10.
+  injection H as <-. exists rk, locked, pw. cbn [dj_input dj_keys dj_rpk dj_r dj_dir dj_bad dj_alias]. auto 12.
 Qed.
 
 Lemma encrypt_plan_inv w o j : encrypt_plan w o = inr j ->
@@ -948,10 +1079,11 @@ Lemma encrypt_plan_inv w o j : encrypt_plan w o = inr j ->
     get_key keys (eo_from o) = Some sk /\ decode_pk (k_pub sk) = Ok (ej_spk j) /\
     k_priv sk = Some locked /\
     ask_pass w (eo_env_pass o) = inr pw /\
-    unlock locked pw = Ok (ej_s j).
+    unlock locked pw = Ok (ej_s j) /\
+    job_ends w (eo_infile o) (eo_outfile o) (ej_input j) (ej_dir j) (ej_bad j) (ej_alias j).
 Proof.
   unfold Cli.encrypt_plan. intros H.
-  apply pbind_inr in H. destruct H as (input & Hi & H). apply open_io_inr in Hi. destruct Hi as [Hs Hi].
+  apply pbind_inr in H. destruct H as (input & Hi & H). apply open_io_inr in Hi. destruct Hi as (Hs & Hi & He).
   apply pbind_inr in H. destruct H as (keys & Hk & H).
   apply pbind_inr in H. destruct H as (rk & Hrk & H). apply opt_or_inr in Hrk.
   apply pbind_inr in H. destruct H as (rpub & Hrpub & H). apply of_outcome_inr in Hrpub.
@@ -960,63 +1092,131 @@ Proof.
   apply pbind_inr in H. destruct H as (locked & Hl & H). apply opt_or_inr in Hl.
   apply pbind_inr in H. destruct H as (pw & Hpw & H).
   apply pbind_inr in H. destruct H as (spriv & Hu & H). apply of_outcome_inr in Hu.
-  injection H as <-. exists keys, rk, sk, locked, pw. cbn [ej_input ej_s ej_spk ej_r]. auto 12.
+  injection H as <-. exists keys, rk, sk, locked, pw. cbn [ej_input ej_s ej_spk ej_r ej_dir ej_bad ej_alias]. auto 14.
 Qed.
 
 Lemma pass_decrypt_plan_inv w o j : pass_decrypt_plan w o = inr j ->
   same_path (po_infile o) (po_outfile o) = false /\
   resolve_input w (po_infile o) = inr (pj_input j) /\
-  ask_pass w (po_env_pass o) = inr (pj_pw j).
+  ask_pass w (po_env_pass o) = inr (pj_pw j) /\
+  job_ends w (po_infile o) (po_outfile o) (pj_input j) (pj_dir j) (pj_bad j) (pj_alias j).
 Proof.
   unfold pass_decrypt_plan. intros H.
-  apply pbind_inr in H. destruct H as (input & Hi & H). apply open_io_inr in Hi. destruct Hi as [Hs Hi].
-  apply pbind_inr in H. destruct H as (pw & Hpw & H). injection H as <-. auto.
+  apply pbind_inr in H. destruct H as (input & Hi & H). apply open_io_inr in Hi. destruct Hi as (Hs & Hi & He).
+  apply pbind_inr in H. destruct H as (pw & Hpw & H). injection H as <-. cbn [pj_input pj_pw pj_dir pj_bad pj_alias]. auto.
 Qed.
 
 Lemma pass_encrypt_plan_inv w o salt j : pass_encrypt_plan w o salt = inr j ->
   same_path (po_infile o) (po_outfile o) = false /\
   resolve_input w (po_infile o) = inr (pj_input j) /\
-  confirm_password w (po_env_pass o) = inr (pj_pw j) /\ length salt = 32%nat.
+  confirm_password w (po_env_pass o) = inr (pj_pw j) /\ length salt = 32%nat /\
+  job_ends w (po_infile o) (po_outfile o) (pj_input j) (pj_dir j) (pj_bad j) (pj_alias j).
 Proof.
   unfold pass_encrypt_plan. intros H.
-  apply pbind_inr in H. destruct H as (input & Hi & H). apply open_io_inr in Hi. destruct Hi as [Hs Hi].
+  apply pbind_inr in H. destruct H as (input & Hi & H). apply open_io_inr in Hi. destruct Hi as (Hs & Hi & He).
   apply pbind_inr in H. destruct H as (pw & Hpw & H).
   apply pbind_inr in H. destruct H as (u & Hu & H). injection H as <-.
   unfold check32 in Hu. destruct (Nat.eqb (length salt) 32) eqn:El; [|discriminate].
-  apply Nat.eqb_eq in El. auto.
+  apply Nat.eqb_eq in El. cbn [pj_input pj_pw pj_dir pj_bad pj_alias]. auto 6.
 Qed.
 
+(** ** A.2' the library call of a job.  [run_dec j] IS the library function on [job_io (dec_fed j) ..]: the
+    bytes fed are the input's bytes unless input and output are one file; a run that returns Ok had a regular
+    file (or stdin) as input and a sink that could be created. *)
+Lemma dec_fed_plain j : dj_alias j = false -> dec_fed j = dj_input j.
+Proof. unfold Cli.dec_fed, alias_fed. now intros ->. Qed.
+Lemma pdec_fed_plain j : pj_alias j = false -> pdec_fed j = pj_input j.
+Proof. unfold Cli.pdec_fed, alias_fed. now intros ->. Qed.
+Lemma enc_fed_plain fpk fe j : ej_alias j = false -> enc_fed fpk fe j = ej_input j.
+Proof. unfold Cli.enc_fed, alias_fed. now intros ->. Qed.
+Lemma penc_fed_plain salt j : pj_alias j = false -> penc_fed salt j = pj_input j.
+Proof. unfold Cli.penc_fed, alias_fed. now intros ->. Qed.
+
+Lemma run_dec_eq j : run_dec j = key_decrypt P (dj_r j) (dj_rpk j) (job_io (dec_fed j) (dj_dir j) (dj_bad j)).
+Proof. reflexivity. Qed.
+Lemma run_pdec_eq j : run_pdec j = pass_decrypt P (pj_pw j) (job_io (pdec_fed j) (pj_dir j) (pj_bad j)).
+Proof. reflexivity. Qed.
+Lemma run_enc_eq fpk fe j : run_enc fpk fe j =
+  key_encrypt P fpk fe (ej_s j) (ej_spk j) (ej_r j) None None None (job_io (enc_fed fpk fe j) (ej_dir j) (ej_bad j)).
+Proof. reflexivity. Qed.
+Lemma run_penc_eq salt j : run_penc salt j = pass_encrypt P (pj_pw j) salt (job_io (penc_fed salt j) (pj_dir j) (pj_bad j)).
+Proof. reflexivity. Qed.
+
+Lemma run_dec_ok j a s' : run_dec j = (Ok a, s') -> dj_dir j = false /\ dj_bad j = false.
+Proof.
+  rewrite run_dec_eq. intros E0. split.
+  - destruct (dj_dir j); [|reflexivity]. exfalso.
+    exact (key_decrypt_dir_reader P _ _ _ _ _ (job_io_dir_reader _ _) E0 a eq_refl).
+  - destruct (dj_bad j); [|reflexivity]. exfalso.
+    exact (key_decrypt_bad_sink P _ _ _ _ _ (job_io_bad_sink _ _) E0 a eq_refl).
+Qed.
+Lemma run_pdec_ok j a s' : run_pdec j = (Ok a, s') -> pj_dir j = false /\ pj_bad j = false.
+Proof.
+  rewrite run_pdec_eq. intros E0. split.
+  - destruct (pj_dir j); [|reflexivity]. exfalso.
+    exact (pass_decrypt_dir_reader P _ _ _ _ (job_io_dir_reader _ _) E0 a eq_refl).
+  - destruct (pj_bad j); [|reflexivity]. exfalso.
+    exact (pass_decrypt_bad_sink P _ _ _ _ (job_io_bad_sink _ _) E0 a eq_refl).
+Qed.
+Lemma run_enc_ok fpk fe j a s' : run_enc fpk fe j = (Ok a, s') -> ej_dir j = false /\ ej_bad j = false.
+Proof.
+  rewrite run_enc_eq. intros E0. split.
+  - destruct (ej_dir j); [|reflexivity]. exfalso.
+    exact (key_encrypt_dir_reader P _ _ _ _ _ _ _ _ _ _ _ (job_io_dir_reader _ _) E0 a eq_refl).
+  - destruct (ej_bad j); [|reflexivity]. exfalso.
+    exact (key_encrypt_bad_sink P _ _ _ _ _ _ _ _ _ _ _ (job_io_bad_sink _ _) E0 a eq_refl).
+Qed.
+Lemma run_penc_ok salt j a s' : run_penc salt j = (Ok a, s') -> pj_dir j = false /\ pj_bad j = false.
+Proof.
+  rewrite run_penc_eq. intros E0. split.
+  - destruct (pj_dir j); [|reflexivity]. exfalso.
+    exact (pass_encrypt_dir_reader P _ _ _ _ _ (job_io_dir_reader _ _) E0 a eq_refl).
+  - destruct (pj_bad j); [|reflexivity]. exfalso.
+    exact (pass_encrypt_bad_sink P _ _ _ _ _ (job_io_bad_sink _ _) E0 a eq_refl).
+Qed.
+
+(* the log of a job's run starts empty *)
+Lemma run_dec_start j : exists s0, log s0 = [] /\ run_dec j = key_decrypt P (dj_r j) (dj_rpk j) s0.
+Proof. eexists. split; [|apply run_dec_eq]. reflexivity. Qed.
+Lemma run_pdec_start j : exists s0, log s0 = [] /\ run_pdec j = pass_decrypt P (pj_pw j) s0.
+Proof. eexists. split; [|apply run_pdec_eq]. reflexivity. Qed.
+
 (** ** A.3 a successful decrypt delivers exactly the [w_out] of a library run that returned Ok.
-    [run_dec j] IS [key_decrypt P (dj_r j) (dj_rpk j) (io0 (dj_input j))] (by definition), the
-    input bytes are the file at the argument path or stdin, the keys are what the keyring and the
-    password unlock; so this composes with the library theorem "Ok => complete authenticated
-    plaintext in w_out". *)
+    [run_dec j] IS [key_decrypt P (dj_r j) (dj_rpk j) (io0 (dec_fed j))] for a successful run, the
+    bytes fed are the file at the argument path or stdin (unless input and output are one file), the keys are
+    what the keyring and the password unlock; so this composes with the library theorem "Ok => complete
+    authenticated plaintext in w_out". *)
 Theorem decrypt_success_delivers w o : is_success (status (cmd_decrypt w o)) = true ->
   exists j sender s',
     decrypt_plan w o = inr j /\
-    key_decrypt P (dj_r j) (dj_rpk j) (io0 (dj_input j)) = (Ok sender, s') /\
+    key_decrypt P (dj_r j) (dj_rpk j) (io0 (dec_fed j)) = (Ok sender, s') /\
     resolve_input w (do_infile o) = inr (dj_input j) /\
     status (cmd_decrypt w o) = sender_status (dj_keys j) sender /\
     match do_outfile o with
     | Some F => fs_get (new_fs (cmd_decrypt w o)) F = Some (w_out (wtr s')) /\
-                (forall q, q <> F -> fs_get (new_fs (cmd_decrypt w o)) q = fs_get (fs w) q) /\
+                (forall q, fs_target (fs w) q <> fs_target (fs w) F ->
+                           fs_get (new_fs (cmd_decrypt w o)) q = fs_get (fs w) q) /\
                 stdout (cmd_decrypt w o) = []
     | None => stdout (cmd_decrypt w o) = w_out (wtr s') /\ new_fs (cmd_decrypt w o) = fs w
-    end.
+    end /\
+    (dj_alias j = false -> dec_fed j = dj_input j).
 Proof.
   intros Hs. unfold Cli.cmd_decrypt in *.
   apply stream_success in Hs; [|apply nosucc_decrypt_plan]. destruct Hs as (j & Hp & Hs).
   destruct (run_dec j) as [res s'] eqn:Er. cbn [fst] in Hs.
   destruct res as [sender|e|t|]; try discriminate; [|destruct e; discriminate].
-  exists j, sender, s'. split; [exact Hp|]. split; [exact Er|].
-  destruct (decrypt_plan_inv w o j Hp) as (rk & locked & pw & _ & Hi & _). split; [exact Hi|].
+  destruct (run_dec_ok _ _ _ Er) as [Hd Hb].
+  exists j, sender, s'. split; [exact Hp|].
+  split; [rewrite run_dec_eq, Hd, Hb in Er; exact Er|].
+  destruct (decrypt_plan_inv w o j Hp) as (rk & locked & pw & _ & Hi & _ & _ & _ & _ & _ & _ & Hends). split; [exact Hi|].
   destruct (stream_plan_run w (do_outfile o) _ run_dec (fun j => fin_dec (dj_keys j)) j Hp) as (Hst & _).
-  rewrite Er in Hst. split; [exact Hst|].
+  rewrite Er in Hst. split; [exact Hst|]. split; [|apply dec_fed_plain].
   destruct (do_outfile o) as [F|] eqn:Eo.
   - assert (Ht : sink_touched (snd (run_dec j)) = true).
-    { rewrite Er. exact (key_decrypt_ok_touches _ _ _ _ _ Er). }
-    pose proof (stream_touched w (Some F) _ run_dec (fun j => fin_dec (dj_keys j)) j F Hp eq_refl Ht) as H.
-    rewrite Er in H. exact H.
+    { rewrite Er. rewrite run_dec_eq in Er. exact (key_decrypt_ok_touches _ _ _ _ _ Er). }
+    destruct (proj1 (job_ends_bad_iff _ _ _ _ _ _ _ Hends) Hb) as [cp Hc].
+    pose proof (stream_touched w (Some F) _ run_dec (fun j => fin_dec (dj_keys j)) j F cp Hp eq_refl Hc Ht) as H.
+    rewrite Er in H. destruct H as (H1 & H2 & _ & H4). auto.
   - pose proof (stream_stdout w None _ run_dec (fun j => fin_dec (dj_keys j)) j Hp eq_refl) as [H1 H2].
     rewrite Er in H2. split; assumption.
 Qed.
@@ -1024,30 +1224,35 @@ Qed.
 Theorem pass_decrypt_success_delivers w o : is_success (status (cmd_pass_decrypt w o)) = true ->
   exists j s',
     pass_decrypt_plan w o = inr j /\
-    pass_decrypt P (pj_pw j) (io0 (pj_input j)) = (Ok tt, s') /\
+    pass_decrypt P (pj_pw j) (io0 (pdec_fed j)) = (Ok tt, s') /\
     resolve_input w (po_infile o) = inr (pj_input j) /\
     ask_pass w (po_env_pass o) = inr (pj_pw j) /\
     status (cmd_pass_decrypt w o) = SOk /\
     match po_outfile o with
     | Some F => fs_get (new_fs (cmd_pass_decrypt w o)) F = Some (w_out (wtr s')) /\
-                (forall q, q <> F -> fs_get (new_fs (cmd_pass_decrypt w o)) q = fs_get (fs w) q) /\
+                (forall q, fs_target (fs w) q <> fs_target (fs w) F ->
+                           fs_get (new_fs (cmd_pass_decrypt w o)) q = fs_get (fs w) q) /\
                 stdout (cmd_pass_decrypt w o) = []
     | None => stdout (cmd_pass_decrypt w o) = w_out (wtr s') /\ new_fs (cmd_pass_decrypt w o) = fs w
-    end.
+    end /\
+    (pj_alias j = false -> pdec_fed j = pj_input j).
 Proof.
   intros Hs. unfold Cli.cmd_pass_decrypt in *.
   apply stream_success in Hs; [|apply nosucc_pass_decrypt_plan]. destruct Hs as (j & Hp & Hs).
   destruct (run_pdec j) as [res s'] eqn:Er. cbn [fst] in Hs.
   destruct res as [[]|e|t|]; try discriminate; [|destruct e; discriminate].
-  exists j, s'. split; [exact Hp|]. split; [exact Er|].
-  destruct (pass_decrypt_plan_inv w o j Hp) as (_ & Hi & Hpw). split; [exact Hi|]. split; [exact Hpw|].
+  destruct (run_pdec_ok _ _ _ Er) as [Hd Hb].
+  exists j, s'. split; [exact Hp|].
+  split; [rewrite run_pdec_eq, Hd, Hb in Er; exact Er|].
+  destruct (pass_decrypt_plan_inv w o j Hp) as (_ & Hi & Hpw & Hends). split; [exact Hi|]. split; [exact Hpw|].
   destruct (stream_plan_run w (po_outfile o) _ run_pdec (fun _ => fin_pdec) j Hp) as (Hst & _).
-  rewrite Er in Hst. split; [exact Hst|].
+  rewrite Er in Hst. split; [exact Hst|]. split; [|apply pdec_fed_plain].
   destruct (po_outfile o) as [F|] eqn:Eo.
   - assert (Ht : sink_touched (snd (run_pdec j)) = true).
-    { rewrite Er. exact (pass_decrypt_ok_touches _ _ _ _ Er). }
-    pose proof (stream_touched w (Some F) _ run_pdec (fun _ => fin_pdec) j F Hp eq_refl Ht) as H.
-    rewrite Er in H. exact H.
+    { rewrite Er. rewrite run_pdec_eq in Er. exact (pass_decrypt_ok_touches _ _ _ _ Er). }
+    destruct (proj1 (job_ends_bad_iff _ _ _ _ _ _ _ Hends) Hb) as [cp Hc].
+    pose proof (stream_touched w (Some F) _ run_pdec (fun _ => fin_pdec) j F cp Hp eq_refl Hc Ht) as H.
+    rewrite Er in H. destruct H as (H1 & H2 & _ & H4). auto.
   - pose proof (stream_stdout w None _ run_pdec (fun _ => fin_pdec) j Hp eq_refl) as [H1 H2].
     rewrite Er in H2. split; assumption.
 Qed.
@@ -1056,62 +1261,77 @@ Qed.
 (** * D. The result does not depend on the wiring                                          *)
 (* ====================================================================================== *)
 
-(** ** D.1 input as a file argument holding B, or B on stdin (the output path, if any, differs
-    from the input path — otherwise the first form is refused): identical results. *)
+(** ** D.1 input as a file argument holding B, or B on stdin (the output path, if any, does not denote the
+    input FILE — whatever the two strings look like): identical results. *)
+Definition other_file (l : fsys) (out : option text) (p : text) : Prop :=
+  forall F, out = Some F -> fs_target l F <> fs_target l p.
+
+Lemma other_file_same_path l out p c : fs_get l p = Some c -> other_file l out p -> same_path (Some p) out = false.
+Proof.
+  intros Hg Ho. destruct out as [q|]; [|reflexivity]. cbn [same_path]. destruct (text_eqb p q) eqn:E; [|reflexivity].
+  apply text_eqb_eq in E. subst q. exfalso. exact (Ho p eq_refl eq_refl).
+Qed.
+
+Lemma open_io_input_wiring fsy ep enp ek sin p B out :
+  fs_get fsy p = Some B -> other_file fsy out p ->
+  open_io {| fs := fsy; env_password := ep; env_new_password := enp; env_keyring := ek; stdin := sin |} (Some p) out
+  = open_io {| fs := fsy; env_password := ep; env_new_password := enp; env_keyring := ek; stdin := B |} None out.
+Proof.
+  intros Hg Ho. unfold open_io. rewrite (other_file_same_path _ _ _ _ Hg Ho). cbn [same_path].
+  destruct (open_input_file {| fs := fsy; env_password := ep; env_new_password := enp; env_keyring := ek; stdin := sin |} p B Hg)
+    as (cp & -> & Ht). cbn [open_input pbind fst snd fs stdin]. f_equal. f_equal.
+  unfold same_file, open_sink. destruct out as [F|]; [|reflexivity].
+  destruct (fs_create_target fsy F) as [cq|] eqn:Ec; [|reflexivity].
+  apply cpath_eqb_neq. intros <-. apply (Ho F eq_refl). cbn [fs] in Ht. rewrite Ht.
+  now destruct (fs_create_target_inv _ _ _ Ec).
+Qed.
+
 Theorem decrypt_input_wiring fsy ep enp ek sin p B t out k e :
-  fs_get fsy p = Some B -> out <> Some p ->
+  fs_get fsy p = Some B -> other_file fsy out p ->
   cmd_decrypt {| fs := fsy; env_password := ep; env_new_password := enp; env_keyring := ek; stdin := sin |}
               {| do_infile := Some p; do_to := t; do_outfile := out; do_keyring := k; do_env_pass := e |}
   = cmd_decrypt {| fs := fsy; env_password := ep; env_new_password := enp; env_keyring := ek; stdin := B |}
               {| do_infile := None; do_to := t; do_outfile := out; do_keyring := k; do_env_pass := e |}.
 Proof.
-  intros Hg Ho. unfold Cli.cmd_decrypt, Cli.decrypt_plan, open_io.
+  intros Hg Ho. unfold Cli.cmd_decrypt, Cli.decrypt_plan.
   cbn [do_infile do_outfile do_to do_keyring do_env_pass].
-  assert (Hs : same_path (Some p) out = false).
-  { destruct out as [q|]; [|reflexivity]. cbn. apply text_eqb_neq. congruence. }
-  rewrite Hs, ?same_path_none. unfold resolve_input. cbn [fs stdin]. rewrite Hg. reflexivity.
+  rewrite (open_io_input_wiring fsy ep enp ek sin p B out Hg Ho). reflexivity.
 Qed.
 
 Theorem pass_decrypt_input_wiring fsy ep enp ek sin p B out e :
-  fs_get fsy p = Some B -> out <> Some p ->
+  fs_get fsy p = Some B -> other_file fsy out p ->
   cmd_pass_decrypt {| fs := fsy; env_password := ep; env_new_password := enp; env_keyring := ek; stdin := sin |}
                    {| po_infile := Some p; po_outfile := out; po_env_pass := e |}
   = cmd_pass_decrypt {| fs := fsy; env_password := ep; env_new_password := enp; env_keyring := ek; stdin := B |}
                    {| po_infile := None; po_outfile := out; po_env_pass := e |}.
 Proof.
-  intros Hg Ho. unfold Cli.cmd_pass_decrypt, pass_decrypt_plan, open_io.
+  intros Hg Ho. unfold Cli.cmd_pass_decrypt, pass_decrypt_plan.
   cbn [po_infile po_outfile po_env_pass].
-  assert (Hs : same_path (Some p) out = false).
-  { destruct out as [q|]; [|reflexivity]. cbn. apply text_eqb_neq. congruence. }
-  rewrite Hs, ?same_path_none. unfold resolve_input. cbn [fs stdin]. rewrite Hg. reflexivity.
+  rewrite (open_io_input_wiring fsy ep enp ek sin p B out Hg Ho). reflexivity.
 Qed.
 
 Theorem encrypt_input_wiring fsy ep enp ek sin p B t f out k e fpk fe :
-  fs_get fsy p = Some B -> out <> Some p ->
+  fs_get fsy p = Some B -> other_file fsy out p ->
   cmd_encrypt {| fs := fsy; env_password := ep; env_new_password := enp; env_keyring := ek; stdin := sin |}
               {| eo_infile := Some p; eo_to := t; eo_from := f; eo_outfile := out; eo_keyring := k; eo_env_pass := e |} fpk fe
   = cmd_encrypt {| fs := fsy; env_password := ep; env_new_password := enp; env_keyring := ek; stdin := B |}
               {| eo_infile := None; eo_to := t; eo_from := f; eo_outfile := out; eo_keyring := k; eo_env_pass := e |} fpk fe.
 Proof.
-  intros Hg Ho. unfold Cli.cmd_encrypt, Cli.encrypt_plan, open_io.
+  intros Hg Ho. unfold Cli.cmd_encrypt, Cli.encrypt_plan.
   cbn [eo_infile eo_outfile eo_to eo_from eo_keyring eo_env_pass].
-  assert (Hs : same_path (Some p) out = false).
-  { destruct out as [q|]; [|reflexivity]. cbn. apply text_eqb_neq. congruence. }
-  rewrite Hs, ?same_path_none. unfold resolve_input. cbn [fs stdin]. rewrite Hg. reflexivity.
+  rewrite (open_io_input_wiring fsy ep enp ek sin p B out Hg Ho). reflexivity.
 Qed.
 
 Theorem pass_encrypt_input_wiring fsy ep enp ek sin p B out e salt :
-  fs_get fsy p = Some B -> out <> Some p ->
+  fs_get fsy p = Some B -> other_file fsy out p ->
   cmd_pass_encrypt {| fs := fsy; env_password := ep; env_new_password := enp; env_keyring := ek; stdin := sin |}
                    {| po_infile := Some p; po_outfile := out; po_env_pass := e |} salt
   = cmd_pass_encrypt {| fs := fsy; env_password := ep; env_new_password := enp; env_keyring := ek; stdin := B |}
                    {| po_infile := None; po_outfile := out; po_env_pass := e |} salt.
 Proof.
-  intros Hg Ho. unfold Cli.cmd_pass_encrypt, pass_encrypt_plan, open_io.
+  intros Hg Ho. unfold Cli.cmd_pass_encrypt, pass_encrypt_plan.
   cbn [po_infile po_outfile po_env_pass].
-  assert (Hs : same_path (Some p) out = false).
-  { destruct out as [q|]; [|reflexivity]. cbn. apply text_eqb_neq. congruence. }
-  rewrite Hs, ?same_path_none. unfold resolve_input. cbn [fs stdin]. rewrite Hg. reflexivity.
+  rewrite (open_io_input_wiring fsy ep enp ek sin p B out Hg Ho). reflexivity.
 Qed.
 
 (** ** D.2 output to `-o F` (F different from the input path, prior state of F arbitrary) or to
@@ -1125,104 +1345,122 @@ Proof. destruct o as [a|e|t|]; cbn; try discriminate; [eauto | destruct e; discr
 Lemma fin_pdec_success o : is_success (fin_pdec o) = true -> exists a, o = Ok a.
 Proof. destruct o as [a|e|t|]; cbn; try discriminate; [eauto | destruct e; discriminate]. Qed.
 
-Theorem decrypt_output_wiring w i t F k e :
-  i <> Some F ->
+(* the input, if it is a path, does not denote the file cp *)
+Definition input_elsewhere (l : fsys) (i : option text) (cp : cpath) : Prop :=
+  forall p, i = Some p -> fs_target l p <> Some cp.
+
+Lemma open_io_output_wiring w i F cp : fs_create_target (fs w) F = Some cp -> input_elsewhere (fs w) i cp ->
+  open_io w i (Some F) = open_io w i None.
+Proof.
+  intros Hc Hi. destruct (fs_create_target_inv _ _ _ Hc) as (Ht & _ & _). unfold open_io.
+  assert (Hs : same_path i (Some F) = false).
+  { destruct i as [p|]; [|reflexivity]. cbn [same_path]. destruct (text_eqb p F) eqn:E; [|reflexivity].
+    apply text_eqb_eq in E. subst p. exfalso. exact (Hi F eq_refl Ht). }
+  rewrite Hs, same_path_none. destruct (open_input w i) as [st|[[c d] cin]] eqn:Eo; cbn [pbind fst snd]; [reflexivity|].
+  f_equal. unfold open_sink. rewrite Hc. cbn [sink_bad same_file]. f_equal.
+  destruct cin as [x|]; [|reflexivity]. apply open_input_inv in Eo. destruct i as [p|].
+  - destruct Eo as (cp0 & [= <-] & Hp & _). apply cpath_eqb_neq. intros ->. exact (Hi p eq_refl Hp).
+  - destruct Eo as (_ & _ & H). discriminate.
+Qed.
+
+Theorem decrypt_output_wiring w i t F cp k e :
+  fs_create_target (fs w) F = Some cp -> input_elsewhere (fs w) i cp ->
   let os := {| do_infile := i; do_to := t; do_outfile := None; do_keyring := k; do_env_pass := e |} in
   let rf := cmd_decrypt w {| do_infile := i; do_to := t; do_outfile := Some F; do_keyring := k; do_env_pass := e |} in
   let rs := cmd_decrypt w os in
   status rf = status rs /\ exit_code rf = exit_code rs /\ stdout rf = [] /\ new_fs rs = fs w /\
-  (forall q, q <> F -> fs_get (new_fs rf) q = fs_get (fs w) q) /\
+  (forall q, fs_target (fs w) q <> fs_target (fs w) F -> fs_get (new_fs rf) q = fs_get (fs w) q) /\
   (forall j, decrypt_plan w os = inr j -> sink_touched (snd (run_dec j)) = true ->
              fs_get (new_fs rf) F = Some (stdout rs)) /\
   (forall j, decrypt_plan w os = inr j -> sink_touched (snd (run_dec j)) = false -> new_fs rf = fs w) /\
   (is_success (status rs) = true -> fs_get (new_fs rf) F = Some (stdout rs)).
 Proof.
-  intros Hi os rf rs. subst os rf rs. unfold Cli.cmd_decrypt, Cli.decrypt_plan, open_io.
-  cbn [do_infile do_outfile do_to do_keyring do_env_pass]. rewrite same_path_false by assumption. rewrite same_path_none.
+  intros Hc Hi os rf rs. subst os rf rs. unfold Cli.cmd_decrypt, Cli.decrypt_plan.
+  cbn [do_infile do_outfile do_to do_keyring do_env_pass]. rewrite (open_io_output_wiring w i F cp Hc Hi).
   match goal with |- context [stream_cmd w None ?pl ?rn ?fn] =>
-    destruct (stream_out_wiring w pl rn fn F) as (H1 & H2 & H3 & H4 & H5 & H6 & H7);
+    destruct (stream_out_wiring w pl rn fn F cp Hc) as (H1 & H2 & H3 & H4 & H5 & H6 & H7);
     repeat (split; [assumption|]); intros Hs;
     apply stream_success_touched in Hs;
       [destruct Hs as (j & Hp & Ht); exact (H6 j Hp Ht)
       | | exact (fun j a s' Er => key_decrypt_ok_touches _ _ _ _ _ Er)
       | intros j o; apply fin_dec_success] end.
   intros st Hst. apply (nosucc_decrypt_plan w {| do_infile := i; do_to := t; do_outfile := None; do_keyring := k; do_env_pass := e |}).
-  unfold Cli.decrypt_plan, open_io. cbn [do_infile do_outfile do_to do_keyring do_env_pass]. rewrite same_path_none. exact Hst.
+  exact Hst.
 Qed.
 
-Theorem pass_decrypt_output_wiring w i F e :
-  i <> Some F ->
+Theorem pass_decrypt_output_wiring w i F cp e :
+  fs_create_target (fs w) F = Some cp -> input_elsewhere (fs w) i cp ->
   let os := {| po_infile := i; po_outfile := None; po_env_pass := e |} in
   let rf := cmd_pass_decrypt w {| po_infile := i; po_outfile := Some F; po_env_pass := e |} in
   let rs := cmd_pass_decrypt w os in
   status rf = status rs /\ exit_code rf = exit_code rs /\ stdout rf = [] /\ new_fs rs = fs w /\
-  (forall q, q <> F -> fs_get (new_fs rf) q = fs_get (fs w) q) /\
+  (forall q, fs_target (fs w) q <> fs_target (fs w) F -> fs_get (new_fs rf) q = fs_get (fs w) q) /\
   (forall j, pass_decrypt_plan w os = inr j -> sink_touched (snd (run_pdec j)) = true ->
              fs_get (new_fs rf) F = Some (stdout rs)) /\
   (forall j, pass_decrypt_plan w os = inr j -> sink_touched (snd (run_pdec j)) = false -> new_fs rf = fs w) /\
   (is_success (status rs) = true -> fs_get (new_fs rf) F = Some (stdout rs)).
 Proof.
-  intros Hi os rf rs. subst os rf rs. unfold Cli.cmd_pass_decrypt, pass_decrypt_plan, open_io.
-  cbn [po_infile po_outfile po_env_pass]. rewrite same_path_false by assumption. rewrite same_path_none.
+  intros Hc Hi os rf rs. subst os rf rs. unfold Cli.cmd_pass_decrypt, pass_decrypt_plan.
+  cbn [po_infile po_outfile po_env_pass]. rewrite (open_io_output_wiring w i F cp Hc Hi).
   match goal with |- context [stream_cmd w None ?pl ?rn ?fn] =>
-    destruct (stream_out_wiring w pl rn fn F) as (H1 & H2 & H3 & H4 & H5 & H6 & H7);
+    destruct (stream_out_wiring w pl rn fn F cp Hc) as (H1 & H2 & H3 & H4 & H5 & H6 & H7);
     repeat (split; [assumption|]); intros Hs;
     apply stream_success_touched in Hs;
       [destruct Hs as (j & Hp & Ht); exact (H6 j Hp Ht)
       | | exact (fun j a s' Er => pass_decrypt_ok_touches _ _ _ _ Er)
       | intros j o; apply fin_pdec_success] end.
   intros st Hst. apply (nosucc_pass_decrypt_plan w {| po_infile := i; po_outfile := None; po_env_pass := e |}).
-  unfold pass_decrypt_plan, open_io. cbn [po_infile po_outfile po_env_pass]. rewrite same_path_none. exact Hst.
+  exact Hst.
 Qed.
 
-Theorem encrypt_output_wiring w i t f F k e fpk fe :
-  i <> Some F ->
+Theorem encrypt_output_wiring w i t f F cp k e fpk fe :
+  fs_create_target (fs w) F = Some cp -> input_elsewhere (fs w) i cp ->
   let os := {| eo_infile := i; eo_to := t; eo_from := f; eo_outfile := None; eo_keyring := k; eo_env_pass := e |} in
   let rf := cmd_encrypt w {| eo_infile := i; eo_to := t; eo_from := f; eo_outfile := Some F; eo_keyring := k; eo_env_pass := e |} fpk fe in
   let rs := cmd_encrypt w os fpk fe in
   status rf = status rs /\ exit_code rf = exit_code rs /\ stdout rf = [] /\ new_fs rs = fs w /\
-  (forall q, q <> F -> fs_get (new_fs rf) q = fs_get (fs w) q) /\
+  (forall q, fs_target (fs w) q <> fs_target (fs w) F -> fs_get (new_fs rf) q = fs_get (fs w) q) /\
   (forall j, encrypt_plan w os = inr j -> sink_touched (snd (run_enc fpk fe j)) = true ->
              fs_get (new_fs rf) F = Some (stdout rs)) /\
   (forall j, encrypt_plan w os = inr j -> sink_touched (snd (run_enc fpk fe j)) = false -> new_fs rf = fs w) /\
   (is_success (status rs) = true -> fs_get (new_fs rf) F = Some (stdout rs)).
 Proof.
-  intros Hi os rf rs. subst os rf rs. unfold Cli.cmd_encrypt, Cli.encrypt_plan, open_io.
-  cbn [eo_infile eo_outfile eo_to eo_from eo_keyring eo_env_pass]. rewrite same_path_false by assumption. rewrite same_path_none.
+  intros Hc Hi os rf rs. subst os rf rs. unfold Cli.cmd_encrypt, Cli.encrypt_plan.
+  cbn [eo_infile eo_outfile eo_to eo_from eo_keyring eo_env_pass]. rewrite (open_io_output_wiring w i F cp Hc Hi).
   match goal with |- context [stream_cmd w None ?pl ?rn ?fn] =>
-    destruct (stream_out_wiring w pl rn fn F) as (H1 & H2 & H3 & H4 & H5 & H6 & H7);
+    destruct (stream_out_wiring w pl rn fn F cp Hc) as (H1 & H2 & H3 & H4 & H5 & H6 & H7);
     repeat (split; [assumption|]); intros Hs;
     apply stream_success_touched in Hs;
       [destruct Hs as (j & Hp & Ht); exact (H6 j Hp Ht)
       | | exact (fun j a s' Er => key_encrypt_ok_touches _ _ _ _ _ _ _ _ Er)
       | intros j o; apply fin_enc_success] end.
   intros st Hst. apply (nosucc_encrypt_plan w {| eo_infile := i; eo_to := t; eo_from := f; eo_outfile := None; eo_keyring := k; eo_env_pass := e |}).
-  unfold Cli.encrypt_plan, open_io. cbn [eo_infile eo_outfile eo_to eo_from eo_keyring eo_env_pass]. rewrite same_path_none. exact Hst.
+  exact Hst.
 Qed.
 
-Theorem pass_encrypt_output_wiring w i F e salt :
-  i <> Some F ->
+Theorem pass_encrypt_output_wiring w i F cp e salt :
+  fs_create_target (fs w) F = Some cp -> input_elsewhere (fs w) i cp ->
   let os := {| po_infile := i; po_outfile := None; po_env_pass := e |} in
   let rf := cmd_pass_encrypt w {| po_infile := i; po_outfile := Some F; po_env_pass := e |} salt in
   let rs := cmd_pass_encrypt w os salt in
   status rf = status rs /\ exit_code rf = exit_code rs /\ stdout rf = [] /\ new_fs rs = fs w /\
-  (forall q, q <> F -> fs_get (new_fs rf) q = fs_get (fs w) q) /\
+  (forall q, fs_target (fs w) q <> fs_target (fs w) F -> fs_get (new_fs rf) q = fs_get (fs w) q) /\
   (forall j, pass_encrypt_plan w os salt = inr j -> sink_touched (snd (run_penc salt j)) = true ->
              fs_get (new_fs rf) F = Some (stdout rs)) /\
   (forall j, pass_encrypt_plan w os salt = inr j -> sink_touched (snd (run_penc salt j)) = false -> new_fs rf = fs w) /\
   (is_success (status rs) = true -> fs_get (new_fs rf) F = Some (stdout rs)).
 Proof.
-  intros Hi os rf rs. subst os rf rs. unfold Cli.cmd_pass_encrypt, pass_encrypt_plan, open_io.
-  cbn [po_infile po_outfile po_env_pass]. rewrite same_path_false by assumption. rewrite same_path_none.
+  intros Hc Hi os rf rs. subst os rf rs. unfold Cli.cmd_pass_encrypt, pass_encrypt_plan.
+  cbn [po_infile po_outfile po_env_pass]. rewrite (open_io_output_wiring w i F cp Hc Hi).
   match goal with |- context [stream_cmd w None ?pl ?rn ?fn] =>
-    destruct (stream_out_wiring w pl rn fn F) as (H1 & H2 & H3 & H4 & H5 & H6 & H7);
+    destruct (stream_out_wiring w pl rn fn F cp Hc) as (H1 & H2 & H3 & H4 & H5 & H6 & H7);
     repeat (split; [assumption|]); intros Hs;
     apply stream_success_touched in Hs;
       [destruct Hs as (j & Hp & Ht); exact (H6 j Hp Ht)
       | | exact (fun j a s' Er => pass_encrypt_ok_touches _ _ _ _ _ Er)
       | intros j o; apply fin_enc_success] end.
   intros st Hst. apply (nosucc_pass_encrypt_plan w {| po_infile := i; po_outfile := None; po_env_pass := e |} salt).
-  unfold pass_encrypt_plan, open_io. cbn [po_infile po_outfile po_env_pass]. rewrite same_path_none. exact Hst.
+  exact Hst.
 Qed.
 
 (** ** D.3 `-k K` or KESTREL_KEYRING = K (whatever the variable held when -k is given): identical results *)
@@ -1264,7 +1502,7 @@ Qed.
 Theorem sender_named w o : is_success (status (cmd_decrypt w o)) = true ->
   exists j sender s',
     decrypt_plan w o = inr j /\
-    key_decrypt P (dj_r j) (dj_rpk j) (io0 (dj_input j)) = (Ok sender, s') /\
+    key_decrypt P (dj_r j) (dj_rpk j) (io0 (dec_fed j)) = (Ok sender, s') /\
     resolve_keyring w (do_keyring o) = inr (dj_keys j) /\
     status (cmd_decrypt w o) =
       match find (fun e => text_eqb (k_pub e) (encode_pk sender)) (dj_keys j) with
@@ -1289,6 +1527,272 @@ Proof.
     { apply (proj2 (get_name_from_key_none pk_ok sk_ok _ _)). intros Hin. apply in_map_iff in Hin. destruct Hin as (e0 & He & Hin).
       exact (Hnone e0 Hin He). }
     now rewrite Hg.
+Qed.
+
+(* ====================================================================================== *)
+(** * F. The tree: output that cannot be created, directory inputs, one file under two names *)
+(* ====================================================================================== *)
+
+(** ** F.0 whatever a streaming command does, every path string that does not denote the -o file shows what
+    it showed before, no resolution target moves, and no node other than the -o file's changes *)
+Lemma stream_other_paths {J E A} (w : world) (outfile : option text) (plan : pre J)
+    (run : J -> outcome E A * io) (fin : J -> outcome E A -> cmd_status) :
+  let r := stream_cmd w outfile plan run fin in
+  (forall q, (forall F, outfile = Some F -> fs_target (fs w) q <> fs_target (fs w) F) ->
+             fs_get (new_fs r) q = fs_get (fs w) q) /\
+  (forall q, fs_target (new_fs r) q = fs_target (fs w) q) /\
+  (forall cq, (forall F, outfile = Some F -> fs_create_target (fs w) F <> Some cq) ->
+              node_at (new_fs r) cq = node_at (fs w) cq) /\
+  cwd (new_fs r) = cwd (fs w).
+Proof.
+  intros r. subst r. destruct (stream_only_target w outfile plan run fin) as [->|(F & cp & c & Ho & Hc & ->)];
+    [repeat split; reflexivity|].
+  destruct (fs_create_target_inv _ _ _ Hc) as (Ht & Hn & _). split; [|split; [|split]].
+  - intros q Hq. apply fs_get_set_other; [exact Hn|]. rewrite <- Ht. exact (Hq F Ho).
+  - intros q. now apply fs_target_set_file.
+  - intros cq Hq. apply node_at_set_other. intros ->. exact (Hq F Ho Hc).
+  - reflexivity.
+Qed.
+
+(** ** F.1 the file named by -o cannot be created (fs_create_target = None: the path does not resolve — empty
+    string, missing parent directory, a regular file used as a directory, trailing slash on something that is not
+    a directory — or it names a directory): the command fails, nothing is created, nothing changes *)
+Lemma stream_bad_output {J E A} (w : world) (F : text) (plan : pre J)
+    (run : J -> outcome E A * io) (fin : J -> outcome E A -> cmd_status) :
+  fs_create_target (fs w) F = None ->
+  (forall st, plan = inl st -> is_success st = false) ->
+  (forall j, plan = inr j -> is_success (fin j (fst (run j))) = false) ->
+  let r := stream_cmd w (Some F) plan run fin in
+  new_fs r = fs w /\ stdout r = [] /\ is_success (status r) = false /\ exit_code r <> 0.
+Proof.
+  intros Hc Hpl Hrun r. subst r. unfold stream_cmd. destruct plan as [st|j] eqn:Ep.
+  - cbn. rewrite (Hpl st eq_refl). repeat split. intros H. apply code_of_zero in H. rewrite (Hpl st eq_refl) in H. discriminate.
+  - cbn [stream_result mk_result new_fs stdout status exit_code out_stdout]. rewrite (out_fs_bad _ _ _ Hc).
+    rewrite (Hrun j eq_refl). repeat split. intros H. apply code_of_zero in H. rewrite (Hrun j eq_refl) in H. discriminate.
+Qed.
+
+Lemma bad_of_ends w i F input dir bad alias : job_ends w i (Some F) input dir bad alias ->
+  fs_create_target (fs w) F = None -> bad = true.
+Proof.
+  intros He Hc. destruct bad; [reflexivity|]. destruct (proj1 (job_ends_bad_iff _ _ _ _ _ _ _ He) eq_refl) as [cp H].
+  congruence.
+Qed.
+
+Theorem encrypt_bad_output w o fpk fe F : eo_outfile o = Some F -> fs_create_target (fs w) F = None ->
+  new_fs (cmd_encrypt w o fpk fe) = fs w /\ stdout (cmd_encrypt w o fpk fe) = [] /\
+  is_success (status (cmd_encrypt w o fpk fe)) = false /\ exit_code (cmd_encrypt w o fpk fe) <> 0.
+Proof.
+  intros Ho Hc. unfold Cli.cmd_encrypt. rewrite Ho. apply stream_bad_output; [exact Hc|apply nosucc_encrypt_plan|].
+  intros j Hp. destruct (encrypt_plan_inv w o j Hp) as (keys & rk & sk & locked & pw & _ & _ & _ & _ & _ & _ & _ & _ & _ & _ & He).
+  rewrite Ho in He. pose proof (bad_of_ends _ _ _ _ _ _ _ He Hc) as Hb.
+  destruct (run_enc fpk fe j) as [[a|e|t|] s'] eqn:Er; try reflexivity.
+  destruct (run_enc_ok _ _ _ _ _ Er) as [_ H]. congruence.
+Qed.
+
+Theorem decrypt_bad_output w o F : do_outfile o = Some F -> fs_create_target (fs w) F = None ->
+  new_fs (cmd_decrypt w o) = fs w /\ stdout (cmd_decrypt w o) = [] /\
+  is_success (status (cmd_decrypt w o)) = false /\ exit_code (cmd_decrypt w o) <> 0.
+Proof.
+  intros Ho Hc. unfold Cli.cmd_decrypt. rewrite Ho. apply stream_bad_output; [exact Hc|apply nosucc_decrypt_plan|].
+  intros j Hp. destruct (decrypt_plan_inv w o j Hp) as (rk & locked & pw & _ & _ & _ & _ & _ & _ & _ & _ & He).
+  rewrite Ho in He. pose proof (bad_of_ends _ _ _ _ _ _ _ He Hc) as Hb.
+  destruct (run_dec j) as [[a|e|t|] s'] eqn:Er; try reflexivity; [|now destruct e].
+  destruct (run_dec_ok _ _ _ Er) as [_ H]. congruence.
+Qed.
+
+Theorem pass_encrypt_bad_output w o salt F : po_outfile o = Some F -> fs_create_target (fs w) F = None ->
+  new_fs (cmd_pass_encrypt w o salt) = fs w /\ stdout (cmd_pass_encrypt w o salt) = [] /\
+  is_success (status (cmd_pass_encrypt w o salt)) = false /\ exit_code (cmd_pass_encrypt w o salt) <> 0.
+Proof.
+  intros Ho Hc. unfold Cli.cmd_pass_encrypt. rewrite Ho. apply stream_bad_output; [exact Hc|apply nosucc_pass_encrypt_plan|].
+  intros j Hp. destruct (pass_encrypt_plan_inv w o salt j Hp) as (_ & _ & _ & _ & He).
+  rewrite Ho in He. pose proof (bad_of_ends _ _ _ _ _ _ _ He Hc) as Hb.
+  destruct (run_penc salt j) as [[a|e|t|] s'] eqn:Er; try reflexivity.
+  destruct (run_penc_ok _ _ _ _ Er) as [_ H]. congruence.
+Qed.
+
+Theorem pass_decrypt_bad_output w o F : po_outfile o = Some F -> fs_create_target (fs w) F = None ->
+  new_fs (cmd_pass_decrypt w o) = fs w /\ stdout (cmd_pass_decrypt w o) = [] /\
+  is_success (status (cmd_pass_decrypt w o)) = false /\ exit_code (cmd_pass_decrypt w o) <> 0.
+Proof.
+  intros Ho Hc. unfold Cli.cmd_pass_decrypt. rewrite Ho. apply stream_bad_output; [exact Hc|apply nosucc_pass_decrypt_plan|].
+  intros j Hp. destruct (pass_decrypt_plan_inv w o j Hp) as (_ & _ & _ & He).
+  rewrite Ho in He. pose proof (bad_of_ends _ _ _ _ _ _ _ He Hc) as Hb.
+  destruct (run_pdec j) as [[a|e|t|] s'] eqn:Er; try reflexivity; [|now destruct e].
+  destruct (run_pdec_ok _ _ _ Er) as [_ H]. congruence.
+Qed.
+
+(* key generate: -o names a directory ("Could not open output file") or a name that cannot be created (the io error of
+   write_all): exit 1, nothing changes.  (A regular file or an absent name in an existing directory is written.) *)
+Theorem gen_key_bad_output w o sk salt F : go_outfile o = Some F -> fs_create_target (fs w) F = None ->
+  new_fs (cmd_gen_key w o sk salt) = fs w /\ stdout (cmd_gen_key w o sk salt) = [] /\
+  is_success (status (cmd_gen_key w o sk salt)) = false /\ exit_code (cmd_gen_key w o sk salt) <> 0.
+Proof.
+  intros Ho Hc. assert (Hns : is_success (status (cmd_gen_key w o sk salt)) = false).
+  { unfold Cli.cmd_gen_key. destruct (gen_plan w o sk salt) as [st|k] eqn:Ep; [exact (nosucc_gen_plan _ _ _ _ _ Ep)|].
+    rewrite Ho. unfold Cli.gen_write. unfold fs_create_target in Hc.
+    destruct (resolve (fs w) F) as [[cp [[c0|]|]]|]; try discriminate; reflexivity. }
+  destruct (gen_key_failed_leaves_fs w o sk salt Hns) as [H1 H2]. repeat split; try assumption.
+  intros H. apply (wf_exit_iff _ (gen_wf w o sk salt)) in H. congruence.
+Qed.
+
+(** ** F.2 the input path is a directory: File::open succeeds, the first read fails.  The two decryptors read
+    first: nothing is written.  The two encryptors write their header first: with -o F (F can be created) the
+    command fails with the read error, exit 1, and F holds exactly the header. *)
+Definition is_dir (l : fsys) (p : text) : Prop := exists cp, resolve l p = Some (cp, Some NDir).
+
+Lemma dir_of_ends w p o input dir bad alias : job_ends w (Some p) o input dir bad alias -> is_dir (fs w) p -> dir = true.
+Proof.
+  intros (cin & Hi & _) (cp & Hr). unfold open_input in Hi. rewrite Hr in Hi. now injection Hi as _ <- _.
+Qed.
+
+Theorem decrypt_dir_input w o p : do_infile o = Some p -> is_dir (fs w) p ->
+  new_fs (cmd_decrypt w o) = fs w /\ stdout (cmd_decrypt w o) = [] /\
+  is_success (status (cmd_decrypt w o)) = false /\
+  (forall j, decrypt_plan w o = inr j ->
+     status (cmd_decrypt w o) = SDecryptFailed (DIORead OtherErr) /\ exit_code (cmd_decrypt w o) = 1).
+Proof.
+  intros Hin Hd. unfold Cli.cmd_decrypt, stream_cmd. destruct (decrypt_plan w o) as [st|j] eqn:Ep.
+  - cbn. rewrite (nosucc_decrypt_plan _ _ _ Ep). split; [reflexivity|]. split; [reflexivity|]. split; [reflexivity|]. intros j0 Hj. discriminate.
+  - destruct (decrypt_plan_inv w o j Ep) as (rk & locked & pw & _ & _ & _ & _ & _ & _ & _ & _ & He).
+    rewrite Hin in He. pose proof (dir_of_ends _ _ _ _ _ _ _ He Hd) as Hdir.
+    pose proof (run_dec_eq j) as Er. rewrite Hdir in Er.
+    destruct (key_decrypt_dir P (dj_r j) (dj_rpk j) _ (job_io_dir_reader (dec_fed j) (dj_bad j))) as (s' & Ek & Hw & Ht).
+    rewrite Ek in Er. cbn [stream_result mk_result new_fs stdout status exit_code]. rewrite Er. cbn [fst snd].
+    rewrite job_io_untouched in Ht. rewrite (out_fs_untouched _ _ _ Ht).
+    split; [reflexivity|]. split.
+    { unfold out_stdout. destruct (do_outfile o); [reflexivity|]. now rewrite Hw. }
+    split; [reflexivity|]. intros j' _. split; reflexivity.
+Qed.
+
+Theorem pass_decrypt_dir_input w o p : po_infile o = Some p -> is_dir (fs w) p ->
+  new_fs (cmd_pass_decrypt w o) = fs w /\ stdout (cmd_pass_decrypt w o) = [] /\
+  is_success (status (cmd_pass_decrypt w o)) = false /\
+  (forall j, pass_decrypt_plan w o = inr j ->
+     status (cmd_pass_decrypt w o) = SDecryptFailed (DIORead OtherErr) /\ exit_code (cmd_pass_decrypt w o) = 1).
+Proof.
+  intros Hin Hd. unfold Cli.cmd_pass_decrypt, stream_cmd. destruct (pass_decrypt_plan w o) as [st|j] eqn:Ep.
+  - cbn. rewrite (nosucc_pass_decrypt_plan _ _ _ Ep). split; [reflexivity|]. split; [reflexivity|]. split; [reflexivity|]. intros j0 Hj. discriminate.
+  - destruct (pass_decrypt_plan_inv w o j Ep) as (_ & _ & _ & He).
+    rewrite Hin in He. pose proof (dir_of_ends _ _ _ _ _ _ _ He Hd) as Hdir.
+    pose proof (run_pdec_eq j) as Er. rewrite Hdir in Er.
+    destruct (pass_decrypt_dir P (pj_pw j) _ (job_io_dir_reader (pdec_fed j) (pj_bad j))) as (s' & Ek & Hw & Ht).
+    rewrite Ek in Er. cbn [stream_result mk_result new_fs stdout status exit_code]. rewrite Er. cbn [fst snd].
+    rewrite job_io_untouched in Ht. rewrite (out_fs_untouched _ _ _ Ht).
+    split; [reflexivity|]. split.
+    { unfold out_stdout. destruct (po_outfile o); [reflexivity|]. now rewrite Hw. }
+    split; [reflexivity|]. intros j' _. split; reflexivity.
+Qed.
+
+(* password encrypt: the 36-byte header (magic, salt) is what F holds afterwards — a new file, or the former
+   content of F replaced by it *)
+Theorem pass_encrypt_dir_input w o salt p F cp j :
+  po_infile o = Some p -> is_dir (fs w) p -> po_outfile o = Some F -> fs_create_target (fs w) F = Some cp ->
+  pass_encrypt_plan w o salt = inr j ->
+  let r := cmd_pass_encrypt w o salt in
+  status r = SEncryptFailed (EIORead OtherErr) /\ exit_code r = 1 /\ stdout r = [] /\
+  fs_get (new_fs r) F = Some (x_pass_file_magic ++ salt) /\
+  (forall q, fs_target (fs w) q <> fs_target (fs w) F -> fs_get (new_fs r) q = fs_get (fs w) q) /\
+  (forall cq, cq <> cp -> node_at (new_fs r) cq = node_at (fs w) cq).
+Proof.
+  intros Hin Hd Ho Hc Ep r. subst r.
+  destruct (pass_encrypt_plan_inv w o salt j Ep) as (_ & _ & _ & _ & He).
+  rewrite Hin in He. pose proof (dir_of_ends _ _ _ _ _ _ _ He Hd) as Hdir.
+  rewrite Ho in He. assert (Hb : pj_bad j = false) by (apply (job_ends_bad_iff _ _ _ _ _ _ _ He); eauto).
+  pose proof (run_penc_eq salt j) as Er. rewrite Hdir, Hb in Er.
+  destruct (pass_encrypt_dir P (pj_pw j) salt _ (job_io_dir_reader (penc_fed salt j) false) (job_io_writer_ok _ _))
+    as (s' & Ek & Hw & Ht).
+  rewrite Ek in Er. cbn [job_io mk_io wtr w_out app] in Hw.
+  assert (Ht' : sink_touched (snd (run_penc salt j)) = true) by (rewrite Er; exact Ht).
+  destruct (pass_encrypt_late_failure_keeps_prefix w o salt j F cp Ep Ho Hc Ht') as (H1 & H2 & H3 & H4).
+  rewrite Er in H1, H4. cbn [fst snd] in H1, H4. destruct (H4 _ eq_refl) as [H5 H6].
+  rewrite Hw in H1. split; [exact H6|]. split; [exact H5|]. split.
+  { unfold Cli.cmd_pass_encrypt, stream_cmd. rewrite Ep. cbn. now rewrite Ho. }
+  split; [exact H1|]. split; [exact H2 | exact H3].
+Qed.
+
+(* encrypt: the 4-byte prologue and the handshake message *)
+Theorem encrypt_dir_input w o fpk fe p F cp j msg hh :
+  eo_infile o = Some p -> is_dir (fs w) p -> eo_outfile o = Some F -> fs_create_target (fs w) F = Some cp ->
+  encrypt_plan w o = inr j -> length fpk = 32%nat ->
+  noise_encrypt P fe (ej_s j) (ej_spk j) (ej_r j) None None x_prologue fpk = Ok (msg, hh) ->
+  let r := cmd_encrypt w o fpk fe in
+  status r = SEncryptFailed (EIORead OtherErr) /\ exit_code r = 1 /\ stdout r = [] /\
+  fs_get (new_fs r) F = Some (x_prologue ++ msg) /\
+  (forall q, fs_target (fs w) q <> fs_target (fs w) F -> fs_get (new_fs r) q = fs_get (fs w) q) /\
+  (forall cq, cq <> cp -> node_at (new_fs r) cq = node_at (fs w) cq).
+Proof.
+  intros Hin Hd Ho Hc Ep Hl Hn r. subst r.
+  destruct (encrypt_plan_inv w o j Ep) as (keys & rk & sk & locked & pw & _ & _ & _ & _ & _ & _ & _ & _ & _ & _ & He).
+  rewrite Hin in He. pose proof (dir_of_ends _ _ _ _ _ _ _ He Hd) as Hdir.
+  rewrite Ho in He. assert (Hb : ej_bad j = false) by (apply (job_ends_bad_iff _ _ _ _ _ _ _ He); eauto).
+  pose proof (run_enc_eq fpk fe j) as Er. rewrite Hdir, Hb in Er.
+  destruct (key_encrypt_dir P fpk fe (ej_s j) (ej_spk j) (ej_r j) _ msg hh
+              (job_io_dir_reader (enc_fed fpk fe j) false) (job_io_writer_ok _ _) Hl Hn) as (s' & Ek & Hw & Ht).
+  rewrite Ek in Er. cbn [job_io mk_io wtr w_out app] in Hw.
+  assert (Ht' : sink_touched (snd (run_enc fpk fe j)) = true) by (rewrite Er; exact Ht).
+  destruct (encrypt_late_failure_keeps_prefix w o fpk fe j F cp Ep Ho Hc Ht') as (H1 & H2 & H3 & H4).
+  rewrite Er in H1, H4. cbn [fst snd] in H1, H4. destruct (H4 _ eq_refl) as [H5 H6].
+  rewrite Hw in H1. split; [exact H6|]. split; [exact H5|]. split.
+  { unfold Cli.cmd_encrypt, stream_cmd. rewrite Ep. cbn. now rewrite Ho. }
+  split; [exact H1|]. split; [exact H2 | exact H3].
+Qed.
+
+(* in every case a directory input makes the command fail *)
+Theorem dir_input_fails :
+  (forall w o fpk fe p, eo_infile o = Some p -> is_dir (fs w) p -> is_success (status (cmd_encrypt w o fpk fe)) = false) /\
+  (forall w o p, do_infile o = Some p -> is_dir (fs w) p -> is_success (status (cmd_decrypt w o)) = false) /\
+  (forall w o salt p, po_infile o = Some p -> is_dir (fs w) p -> is_success (status (cmd_pass_encrypt w o salt)) = false) /\
+  (forall w o p, po_infile o = Some p -> is_dir (fs w) p -> is_success (status (cmd_pass_decrypt w o)) = false).
+Proof.
+  split; [|split; [|split]].
+  - intros w o fpk fe p Hin Hd. destruct (is_success (status (cmd_encrypt w o fpk fe))) eqn:Hs; [|reflexivity]. exfalso.
+    unfold Cli.cmd_encrypt in Hs. apply stream_success in Hs; [|apply nosucc_encrypt_plan]. destruct Hs as (j & Hp & Hs).
+    destruct (encrypt_plan_inv w o j Hp) as (keys & rk & sk & locked & pw & _ & _ & _ & _ & _ & _ & _ & _ & _ & _ & He).
+    rewrite Hin in He. pose proof (dir_of_ends _ _ _ _ _ _ _ He Hd) as Hdir.
+    destruct (run_enc fpk fe j) as [[a|e|t|] s'] eqn:Er; try discriminate.
+    destruct (run_enc_ok _ _ _ _ _ Er) as [H _]. congruence.
+  - intros w o p Hin Hd. now destruct (decrypt_dir_input w o p Hin Hd) as (_ & _ & H & _).
+  - intros w o salt p Hin Hd. destruct (is_success (status (cmd_pass_encrypt w o salt))) eqn:Hs; [|reflexivity]. exfalso.
+    unfold Cli.cmd_pass_encrypt in Hs. apply stream_success in Hs; [|apply nosucc_pass_encrypt_plan]. destruct Hs as (j & Hp & Hs).
+    destruct (pass_encrypt_plan_inv w o salt j Hp) as (_ & _ & _ & _ & He).
+    rewrite Hin in He. pose proof (dir_of_ends _ _ _ _ _ _ _ He Hd) as Hdir.
+    destruct (run_penc salt j) as [[a|e|t|] s'] eqn:Er; try discriminate.
+    destruct (run_penc_ok _ _ _ _ Er) as [H _]. congruence.
+  - intros w o p Hin Hd. now destruct (pass_decrypt_dir_input w o p Hin Hd) as (_ & _ & H & _).
+Qed.
+
+(** ** F.3 one file under two names.  The program compares the two argument STRINGS; the world identifies a
+    file by its canonical path.  POSITIVE: when the input path and the -o path do not denote the same file, the
+    input file is what it was, after every command, whatever its outcome. *)
+Theorem input_file_survives :
+  (forall w o fpk fe p, eo_infile o = Some p -> other_file (fs w) (eo_outfile o) p ->
+     fs_get (new_fs (cmd_encrypt w o fpk fe)) p = fs_get (fs w) p) /\
+  (forall w o p, do_infile o = Some p -> other_file (fs w) (do_outfile o) p ->
+     fs_get (new_fs (cmd_decrypt w o)) p = fs_get (fs w) p) /\
+  (forall w o salt p, po_infile o = Some p -> other_file (fs w) (po_outfile o) p ->
+     fs_get (new_fs (cmd_pass_encrypt w o salt)) p = fs_get (fs w) p) /\
+  (forall w o p, po_infile o = Some p -> other_file (fs w) (po_outfile o) p ->
+     fs_get (new_fs (cmd_pass_decrypt w o)) p = fs_get (fs w) p).
+Proof.
+  split; [|split; [|split]].
+  - intros w o fpk fe p _ Ho. apply (stream_other_paths w (eo_outfile o)). intros F HF H. exact (Ho F HF (eq_sym H)).
+  - intros w o p _ Ho. apply (stream_other_paths w (do_outfile o)). intros F HF H. exact (Ho F HF (eq_sym H)).
+  - intros w o salt p _ Ho. apply (stream_other_paths w (po_outfile o)). intros F HF H. exact (Ho F HF (eq_sym H)).
+  - intros w o p _ Ho. apply (stream_other_paths w (po_outfile o)). intros F HF H. exact (Ho F HF (eq_sym H)).
+Qed.
+
+(* when the job says "one file": the two strings differ, both denote the same regular file *)
+Lemma alias_of_ends w p F input dir bad alias : job_ends w (Some p) (Some F) input dir bad alias -> alias = true ->
+  fs_get (fs w) p = Some input /\ fs_target (fs w) p = fs_target (fs w) F /\
+  exists cp, fs_create_target (fs w) F = Some cp /\ dir = false /\ bad = false.
+Proof.
+  intros (cin & Hi & -> & ->) Ha. apply open_input_inv in Hi. destruct Hi as (cp & -> & Ht & Hcase).
+  unfold same_file, open_sink in *. destruct (fs_create_target (fs w) F) as [cq|] eqn:Ec; [|discriminate].
+  apply cpath_eqb_eq in Ha. subst cq. destruct (fs_create_target_inv _ _ _ Ec) as (HtF & Hn & _).
+  destruct Hcase as [[-> Hg]|(-> & -> & Hr)].
+  - split; [exact Hg|]. split; [now rewrite Ht, HtF|]. exists cp. auto.
+  - exfalso. apply Hn. exact (resolve_node _ _ _ _ Hr).
 Qed.
 
 End Cmds.
@@ -1424,3 +1928,14 @@ Print Assumptions pass_encrypt_output_wiring.
 Print Assumptions decrypt_keyring_wiring.
 Print Assumptions encrypt_keyring_wiring.
 Print Assumptions sender_named.
+Print Assumptions encrypt_bad_output.
+Print Assumptions decrypt_bad_output.
+Print Assumptions pass_encrypt_bad_output.
+Print Assumptions pass_decrypt_bad_output.
+Print Assumptions gen_key_bad_output.
+Print Assumptions decrypt_dir_input.
+Print Assumptions pass_decrypt_dir_input.
+Print Assumptions pass_encrypt_dir_input.
+Print Assumptions encrypt_dir_input.
+Print Assumptions dir_input_fails.
+Print Assumptions input_file_survives.
